@@ -1,7 +1,7 @@
 (* C16_Proofs.v — lemmas for C16: a small "who may write where" logic over the
    memory monad of SliceMem.v, and its application to every helper of
    C16_Model.v.  The statements of the property are in C16_Props.v. *)
-From Gogu Require Import Base SliceMem C14_Model C14_Proofs C16_Model.
+From Gogu Require Import Base C14_Model SliceMem C16_Model.
 Local Open Scope nat_scope.
 Local Open Scope mem_scope.
 
@@ -57,59 +57,101 @@ Qed.
 Lemma arr_of_app_old (m ext : mem) id : id < length m -> arr_of (m ++ ext) id = arr_of m id.
 Proof. intros H. unfold arr_of. now apply app_nth1. Qed.
 
-(* ------------------------------------------------------------------ *)
-(* "m' differs from m at most in the cells P of the arrays below n"    *)
 
-Definition same_outside (P : nat -> nat -> Prop) (n : nat) (m m' : mem) : Prop :=
+Lemma arr_of_set_nth_other (m : mem) id x id' : id' <> id -> arr_of (set_nth m id x) id' = arr_of m id'.
+Proof. intros H. unfold arr_of. now apply nth_set_nth_other. Qed.
+
+Lemma arr_of_set_nth_same (m : mem) id x : id < length m -> arr_of (set_nth m id x) id = x.
+Proof. intros H. unfold arr_of. now apply nth_set_nth_same. Qed.
+
+(* ------------------------------------------------------------------ *)
+(* "m' differs from m at most in the cells P of the objects below n and
+   in the objects W below n (maps that may be stored into)"             *)
+
+Definition same_outside (P : nat -> nat -> Prop) (W : nat -> Prop) (n : nat) (m m' : mem) : Prop :=
   n <= length m /\ length m <= length m' /\
-  forall id, id < n ->
+  forall id, id < n -> ~ W id ->
     length (arr_of m' id) = length (arr_of m id) /\
     forall i, ~ P id i -> cell m' id i = cell m id i.
 
-Lemma same_outside_refl P n m : n <= length m -> same_outside P n m m.
+Definition noP : nat -> nat -> Prop := fun _ _ => False.
+Definition noW : nat -> Prop := fun _ => False.
+
+Lemma same_outside_refl P W n m : n <= length m -> same_outside P W n m m.
 Proof. intros H. repeat split; auto. Qed.
 
-Lemma same_outside_trans P n m1 m2 m3 :
-  same_outside P n m1 m2 -> same_outside P n m2 m3 -> same_outside P n m1 m3.
+Lemma same_outside_trans P W n m1 m2 m3 :
+  same_outside P W n m1 m2 -> same_outside P W n m2 m3 -> same_outside P W n m1 m3.
 Proof.
   intros (H1 & H2 & H3) (H4 & H5 & H6). split; [exact H1|]. split; [lia|].
-  intros id Hid. destruct (H3 id Hid) as [L1 C1]. destruct (H6 id Hid) as [L2 C2].
+  intros id Hid HW. destruct (H3 id Hid HW) as [L1 C1]. destruct (H6 id Hid HW) as [L2 C2].
   split; [congruence|]. intros i Hi. rewrite C2, C1; auto.
 Qed.
 
-Lemma same_outside_write_cell P n m id i v :
-  n <= length m -> (n <= id \/ P id i) -> same_outside P n m (write_cell m id i v).
+Lemma same_outside_write_cell P W n m id i v :
+  n <= length m -> (n <= id \/ P id i) -> same_outside P W n m (write_cell m id i v).
 Proof.
   intros Hn Hw. split; [exact Hn|]. split; [rewrite write_cell_length; lia|].
-  intros id' Hid'. split; [apply write_cell_arr_length|].
+  intros id' Hid' _. split; [apply write_cell_arr_length|].
   intros i' Hi'. apply cell_write_cell_other. intros Heq. injection Heq as -> ->.
   destruct Hw; [lia|tauto].
 Qed.
 
-Lemma same_outside_write_from (P : nat -> nat -> Prop) n id (vs : list Z) : forall (m : mem) i,
-  n <= length m -> (n <= id \/ forall j, j < length vs -> P id (i + j)) ->
-  same_outside P n m (write_from m id i vs).
+Lemma splice_length arr i vs : length (splice arr i vs) = length arr.
 Proof.
-  induction vs as [|v vs IH]; intros m i Hn Hw; cbn.
-  - now apply same_outside_refl.
-  - apply (same_outside_trans P n m (write_cell m id i v)).
-    + apply same_outside_write_cell; [exact Hn|].
-      destruct Hw as [Hw|Hw]; [now left|right]. specialize (Hw 0). rewrite Nat.add_0_r in Hw. apply Hw. cbn. lia.
-    + apply IH; [rewrite write_cell_length; exact Hn|].
-      destruct Hw as [Hw|Hw]; [now left|right]. intros j Hj.
-      replace (S i + j) with (i + S j) by lia. apply Hw. cbn. lia.
+  unfold splice. rewrite !app_length, !firstn_length, skipn_length. lia.
 Qed.
 
-Lemma same_outside_alloc P n m a : n <= length m -> same_outside P n m (m ++ [a]).
+Lemma nth_skipn_add {A} (l : list A) : forall k j d, nth j (skipn k l) d = nth (k + j) l d.
+Proof.
+  induction l as [|h t IH]; intros [|k] j d; cbn; auto. now destruct j.
+Qed.
+
+Lemma nth_splice_outside arr i vs j d : j < i \/ i + length vs <= j -> nth j (splice arr i vs) d = nth j arr d.
+Proof.
+  intros Hj. destruct (Nat.lt_ge_cases j (length arr)) as [Hlt|Hge].
+  2:{ rewrite !nth_overflow; auto. now rewrite splice_length. }
+  unfold splice. destruct Hj as [Hj|Hj].
+  - rewrite app_nth1 by (rewrite firstn_length; lia). now apply nth_firstn_lt.
+  - rewrite app_nth2 by (rewrite firstn_length; lia). rewrite firstn_length.
+    rewrite app_nth2 by (rewrite firstn_length; lia). rewrite firstn_length.
+    rewrite nth_skipn_add. f_equal. lia.
+Qed.
+
+Lemma same_outside_write_from (P : nat -> nat -> Prop) W n id (vs : list Z) (m : mem) i :
+  n <= length m -> (n <= id \/ forall j, j < length vs -> P id (i + j)) ->
+  same_outside P W n m (write_from m id i vs).
+Proof.
+  intros Hn Hw. unfold write_from. split; [exact Hn|]. split; [rewrite set_nth_length; lia|].
+  intros id' Hid' _. destruct (Nat.eq_dec id' id) as [->|Hne].
+  - rewrite arr_of_set_nth_same by lia. split; [apply splice_length|].
+    intros j HP. unfold cell. rewrite arr_of_set_nth_same by lia. apply nth_splice_outside.
+    destruct Hw as [Hw|Hw]; [lia|].
+    destruct (Nat.lt_ge_cases j i) as [?|Hji]; [now left|right].
+    destruct (Nat.le_gt_cases (i + length vs) j) as [?|Hlt]; [assumption|].
+    exfalso. apply HP. replace j with (i + (j - i)) by lia. apply Hw. lia.
+  - unfold cell. rewrite arr_of_set_nth_other by exact Hne. auto.
+Qed.
+
+Lemma same_outside_alloc P W n m a : n <= length m -> same_outside P W n m (m ++ [a]).
 Proof.
   intros Hn. split; [exact Hn|]. split; [rewrite app_length; lia|].
-  intros id Hid. unfold cell. rewrite arr_of_app_old by lia. auto.
+  intros id Hid _. unfold cell. rewrite arr_of_app_old by lia. auto.
+Qed.
+
+(* replacing a whole object (a map store / delete) *)
+Lemma same_outside_set_obj P (W : nat -> Prop) n (m : mem) id x :
+  n <= length m -> (n <= id \/ W id) -> same_outside P W n m (set_nth m id x).
+Proof.
+  intros Hn Hw. split; [exact Hn|]. split; [rewrite set_nth_length; lia|].
+  intros id' Hid' HW'. assert (Hne : id' <> id) by (intros ->; destruct Hw; [lia|tauto]).
+  unfold cell. rewrite arr_of_set_nth_other by exact Hne. auto.
 Qed.
 
 (* with nothing writable, the old memory is a prefix of the new one *)
 Definition frame (m m' : mem) : Prop := exists ext, m' = m ++ ext.
 
-Lemma same_outside_frame m m' : same_outside (fun _ _ => False) (length m) m m' -> frame m m'.
+Lemma same_outside_frame m m' : same_outside noP noW (length m) m m' -> frame m m'.
 Proof.
   intros (_ & Hlen & H). exists (skipn (length m) m').
   rewrite <- (firstn_skipn (length m) m') at 1. f_equal.
@@ -118,30 +160,30 @@ Proof.
   - intros id Hid. rewrite firstn_length in Hid.
     assert (Hid' : id < length m) by lia.
     rewrite nth_firstn_lt by exact Hid'.
-    destruct (H id Hid') as [L C].
+    destruct (H id Hid') as [L C]; [unfold noW; tauto|].
     apply nth_ext with (d := 0%Z) (d' := 0%Z); [exact L|].
-    intros i _. apply C. tauto.
+    intros i _. apply C. unfold noP. tauto.
 Qed.
 
 Lemma frame_read_all m m' s : frame m m' -> s_arr s < length m -> read_all m' s = read_all m s.
 Proof. intros [ext ->] H. unfold read_all. now rewrite arr_of_app_old. Qed.
 
 (* ------------------------------------------------------------------ *)
-(* the logic: a computation, started in a memory with at least n arrays, only
-   writes cells P of the first n arrays (and whatever it likes in arrays it
-   allocates itself); its result satisfies Q *)
+(* the logic: a computation, started in a memory with at least n objects, only
+   writes cells P and objects W among the first n (and whatever it likes in
+   objects it allocates itself); its result satisfies Q *)
 
-Definition safe {A} (P : nat -> nat -> Prop) (n : nat) (c : M A) (Q : A -> Prop) : Prop :=
-  forall m a m', n <= length m -> c m = Some (a, m') -> same_outside P n m m' /\ Q a.
+Definition safe {A} (P : nat -> nat -> Prop) (W : nat -> Prop) (n : nat) (c : M A) (Q : A -> Prop) : Prop :=
+  forall m a m', n <= length m -> c m = Some (a, m') -> same_outside P W n m m' /\ Q a.
 
-Lemma safe_ret {A} P n (a : A) (Q : A -> Prop) : Q a -> safe P n (ret a) Q.
+Lemma safe_ret {A} P W n (a : A) (Q : A -> Prop) : Q a -> safe P W n (ret a) Q.
 Proof. intros HQ m a' m' Hn H. injection H as <- <-. split; [now apply same_outside_refl|exact HQ]. Qed.
 
-Lemma safe_fail {A} P n (Q : A -> Prop) : safe P n fail Q.
+Lemma safe_fail {A} P W n (Q : A -> Prop) : safe P W n fail Q.
 Proof. intros m a m' _ H. discriminate. Qed.
 
-Lemma safe_bind {A B} P n (c : M A) (k : A -> M B) (Q : A -> Prop) (R : B -> Prop) :
-  safe P n c Q -> (forall a, Q a -> safe P n (k a) R) -> safe P n (bind c k) R.
+Lemma safe_bind {A B} P W n (c : M A) (k : A -> M B) (Q : A -> Prop) (R : B -> Prop) :
+  safe P W n c Q -> (forall a, Q a -> safe P W n (k a) R) -> safe P W n (bind c k) R.
 Proof.
   intros Hc Hk m b m'' Hn H. unfold bind in H. destruct (c m) as [[a m']|] eqn:Ec; [|discriminate].
   destruct (Hc m a m' Hn Ec) as [S1 HQ].
@@ -150,23 +192,53 @@ Proof.
   split; [eapply same_outside_trans; eassumption|exact HR].
 Qed.
 
-Lemma safe_weaken {A} P n (c : M A) (Q Q' : A -> Prop) :
-  safe P n c Q -> (forall a, Q a -> Q' a) -> safe P n c Q'.
+Lemma safe_weaken {A} P W n (c : M A) (Q Q' : A -> Prop) :
+  safe P W n c Q -> (forall a, Q a -> Q' a) -> safe P W n c Q'.
 Proof. intros H HQ m a m' Hn E. destruct (H m a m' Hn E). auto. Qed.
 
-Lemma safe_for_each {S} P n (idxs : list nat) (body : nat -> S -> M S) (Q : S -> Prop) :
-  (forall i st, Q st -> safe P n (body i st) Q) -> forall st, Q st -> safe P n (for_each idxs body st) Q.
+Lemma safe_for_each {X S} P W n (xs : list X) (body : X -> S -> M S) (Q : S -> Prop) :
+  (forall x st, Q st -> safe P W n (body x st) Q) -> forall st, Q st -> safe P W n (for_each xs body st) Q.
 Proof.
-  intros Hb. induction idxs as [|i idxs IH]; intros st HQ; cbn.
+  intros Hb. induction xs as [|x xs IH]; intros st HQ; cbn.
   - now apply safe_ret.
   - eapply safe_bind; [now apply Hb|]. intros st' HQ'. now apply IH.
+Qed.
+
+(* the same with the loop variable known to come from the list *)
+Lemma safe_for_each_in {X S} P W n (xs : list X) (body : X -> S -> M S) (Q : S -> Prop) :
+  (forall x st, In x xs -> Q st -> safe P W n (body x st) Q) -> forall st, Q st -> safe P W n (for_each xs body st) Q.
+Proof.
+  induction xs as [|x xs IH]; intros Hb st HQ; cbn.
+  - now apply safe_ret.
+  - eapply safe_bind; [apply Hb; [now left|exact HQ]|]. intros st' HQ'.
+    apply IH; [|exact HQ']. intros y st'' Hy. apply Hb. now right.
+Qed.
+
+(* a fuel-driven loop: an invariant of the step function *)
+Lemma safe_iter_until {S R} P W n (step : S -> M (S + R)) (I : S -> Prop) (Q : R -> Prop) :
+  (forall x, I x -> safe P W n (step x) (fun r => match r with inl x' => I x' | inr d => Q d end)) ->
+  forall p x, I x -> safe P W n (iter_until p step x) (fun r => match r with inl x' => I x' | inr d => Q d end).
+Proof.
+  intros Hs. induction p as [p IH|p IH|]; intros x Hx; cbn [iter_until].
+  - eapply safe_bind; [now apply Hs|]. intros [x1|d] H1; [|now apply safe_ret].
+    eapply safe_bind; [now apply IH|]. intros [x2|d] H2; [now apply IH|now apply safe_ret].
+  - eapply safe_bind; [now apply IH|]. intros [x1|d] H1; [now apply IH|now apply safe_ret].
+  - now apply Hs.
+Qed.
+
+Lemma safe_run_loop {S R} P W n (step : S -> M (S + R)) (I : S -> Prop) (Q : R -> Prop) p x :
+  (forall x, I x -> safe P W n (step x) (fun r => match r with inl x' => I x' | inr d => Q d end)) ->
+  I x -> safe P W n (run_loop p step x) Q.
+Proof.
+  intros Hs Hx. unfold run_loop. eapply safe_bind; [now apply (safe_iter_until P W n step I Q)|].
+  intros [x'|d] H; [apply safe_fail|now apply safe_ret].
 Qed.
 
 (* the computation does not touch the memory at all *)
 Definition pure_on {A} (c : M A) (Q : A -> Prop) : Prop :=
   forall m a m', c m = Some (a, m') -> m' = m /\ Q a.
 
-Lemma pure_safe {A} P n (c : M A) Q : pure_on c Q -> safe P n c Q.
+Lemma pure_safe {A} P W n (c : M A) Q : pure_on c Q -> safe P W n c Q.
 Proof. intros H m a m' Hn E. destruct (H m a m' E) as [-> HQ]. split; [now apply same_outside_refl|exact HQ]. Qed.
 
 Lemma pure_ret {A} (a : A) (Q : A -> Prop) : Q a -> pure_on (ret a) Q.
@@ -179,12 +251,22 @@ Proof.
   intros Hc Hk m b m'' H. unfold bind in H. destruct (c m) as [[a m']|] eqn:Ec; [|discriminate].
   destruct (Hc m a m' Ec) as [-> HQ]. now apply (Hk a HQ).
 Qed.
-Lemma pure_for_each {S} (idxs : list nat) (body : nat -> S -> M S) (Q : S -> Prop) :
-  (forall i st, Q st -> pure_on (body i st) Q) -> forall st, Q st -> pure_on (for_each idxs body st) Q.
+Lemma pure_weaken {A} (c : M A) (Q Q' : A -> Prop) : pure_on c Q -> (forall a, Q a -> Q' a) -> pure_on c Q'.
+Proof. intros H HQ m a m' E. destruct (H m a m' E). auto. Qed.
+Lemma pure_for_each {X S} (xs : list X) (body : X -> S -> M S) (Q : S -> Prop) :
+  (forall x st, Q st -> pure_on (body x st) Q) -> forall st, Q st -> pure_on (for_each xs body st) Q.
 Proof.
-  intros Hb. induction idxs as [|i idxs IH]; intros st HQ; cbn.
+  intros Hb. induction xs as [|x xs IH]; intros st HQ; cbn.
   - now apply pure_ret.
   - eapply pure_bind; [now apply Hb|]. intros st' HQ'. now apply IH.
+Qed.
+Lemma pure_for_each_in {X S} (xs : list X) (body : X -> S -> M S) (Q : S -> Prop) :
+  (forall x st, In x xs -> Q st -> pure_on (body x st) Q) -> forall st, Q st -> pure_on (for_each xs body st) Q.
+Proof.
+  induction xs as [|x xs IH]; intros Hb st HQ; cbn.
+  - now apply pure_ret.
+  - eapply pure_bind; [apply Hb; [now left|exact HQ]|]. intros st' HQ'.
+    apply IH; [|exact HQ']. intros y st'' Hy. apply Hb. now right.
 Qed.
 
 Lemma pure_rd s i : pure_on (rd s i) (fun _ => True).
@@ -207,6 +289,51 @@ Proof.
   apply Nat.leb_le in E1. apply Nat.leb_le in E2. cbn. auto 10.
 Qed.
 
+Lemma pure_entries id : pure_on (m_entries id) (fun _ => True).
+Proof. intros m a m' H. unfold m_entries in H. injection H as <- <-. auto. Qed.
+Lemma pure_lookup id k : pure_on (m_lookup id k) (fun _ => True).
+Proof. intros m a m' H. unfold m_lookup in H. injection H as <- <-. auto. Qed.
+
+(* ---------- read-only computations, solved by one tactic ---------- *)
+
+Definition ro {A} (c : M A) : Prop := pure_on c (fun _ => True).
+
+Lemma ro_ret {A} (a : A) : ro (ret a).
+Proof. now apply pure_ret. Qed.
+Lemma ro_fail {A} : ro (@fail A).
+Proof. apply pure_fail. Qed.
+Lemma ro_bind {A B} (c : M A) (k : A -> M B) : ro c -> (forall a, ro (k a)) -> ro (bind c k).
+Proof. intros Hc Hk. eapply pure_bind; [exact Hc|]. intros a _. apply Hk. Qed.
+Lemma ro_for_each {X S} (xs : list X) (body : X -> S -> M S) st : (forall x st, ro (body x st)) -> ro (for_each xs body st).
+Proof. intros Hb. apply pure_for_each; [|exact I]. intros x st' _. apply Hb. Qed.
+Lemma ro_rd s i : ro (rd s i).
+Proof. apply pure_rd. Qed.
+Lemma ro_rdz s i : ro (rdz s i).
+Proof. unfold rdz. destruct (i <? 0)%Z; [apply ro_fail|apply ro_rd]. Qed.
+Lemma ro_values s : ro (values s).
+Proof. eapply pure_weaken; [apply pure_values|auto]. Qed.
+Lemma ro_reslice s lo hi : ro (reslice s lo hi).
+Proof. eapply pure_weaken; [apply pure_reslice|auto]. Qed.
+Lemma ro_entries id : ro (m_entries id).
+Proof. apply pure_entries. Qed.
+Lemma ro_lookup id k : ro (m_lookup id k).
+Proof. apply pure_lookup. Qed.
+Lemma ro_rd_elem {A} (tbl : Z -> A) outer j : ro (rd_elem tbl outer j).
+Proof. unfold rd_elem. apply ro_bind; [apply ro_rd|]. intros c. apply ro_ret. Qed.
+Lemma ro_pure {A} (c : M A) (Q : A -> Prop) : ro c -> (forall m a, c m = Some (a, m) -> Q a) -> pure_on c Q.
+Proof. intros H HQ m a m' E. destruct (H m a m' E) as [-> _]. split; [reflexivity|]. now apply (HQ m). Qed.
+
+Ltac ro_tac :=
+  repeat first
+    [ apply ro_ret | apply ro_fail | apply ro_rd | apply ro_rdz | apply ro_rd_elem | apply ro_values | apply ro_reslice
+    | apply ro_entries | apply ro_lookup
+    | (apply ro_bind; [|intros ?])
+    | (apply ro_for_each; intros ? ?)
+    | match goal with |- ro (match ?x with _ => _ end) => destruct x end ].
+
+Lemma safe_ro {A} P W n (c : M A) : ro c -> safe P W n c (fun _ => True).
+Proof. apply pure_safe. Qed.
+
 (* ---------- the primitives that write ---------- *)
 
 (* a slice through which no pre-existing array can be written: it lives in an
@@ -217,20 +344,28 @@ Definition okS (n : nat) (s : slice) : Prop := n <= s_arr s \/ (s_len s = 0 /\ s
 Definition inP (P : nat -> nat -> Prop) (s : slice) : Prop :=
   forall i, i < s_len s -> P (s_arr s) (s_off s + i).
 
-Lemma safe_alloc P n a : safe P n (alloc a) (fun id => n <= id).
+Lemma safe_alloc P W n a : safe P W n (alloc a) (fun id => n <= id).
 Proof.
   intros m id m' Hn H. unfold alloc in H. injection H as <- <-.
   split; [now apply same_outside_alloc|exact Hn].
 Qed.
 
-Lemma safe_make_slice P n len cap :
-  safe P n (make_slice len cap) (fun s => n <= s_arr s /\ s_len s = len /\ s_cap s = cap /\ s_off s = 0).
+Lemma safe_make_map P W n : safe P W n make_map (fun id => n <= id).
+Proof. apply safe_alloc. Qed.
+Lemma safe_lit_map P W n a : safe P W n (lit_map a) (fun id => n <= id).
+Proof. apply safe_alloc. Qed.
+
+Lemma safe_make_slice P W n len cap :
+  safe P W n (make_slice len cap) (fun s => n <= s_arr s /\ s_len s = len /\ s_cap s = cap /\ s_off s = 0).
 Proof.
   unfold make_slice. destruct (len <=? cap); [|apply safe_fail].
   eapply safe_bind; [apply safe_alloc|]. intros id Hid. apply safe_ret. cbn. auto.
 Qed.
 
-Lemma safe_wr P n s i v : okS n s \/ inP P s -> safe P n (wr s i v) (fun _ => True).
+Lemma safe_make_slice_ok P W n len cap : safe P W n (make_slice len cap) (okS n).
+Proof. eapply safe_weaken; [apply safe_make_slice|]. intros s (H & _). now left. Qed.
+
+Lemma safe_wr P W n s i v : okS n s \/ inP P s -> safe P W n (wr s i v) (fun _ => True).
 Proof.
   intros Hs m a m' Hn H. unfold wr in H. destruct (Nat.ltb_spec i (s_len s)) as [Hi|Hi]; [|discriminate].
   injection H as <- <-. split; [|exact I].
@@ -238,7 +373,7 @@ Proof.
   destruct Hs as [[Hs|[Hs _]]|Hs]; [now left|lia|right; now apply Hs].
 Qed.
 
-Lemma safe_swap P n s i j : okS n s \/ inP P s -> safe P n (swap s i j) (fun _ => True).
+Lemma safe_swap P W n s i j : okS n s \/ inP P s -> safe P W n (swap s i j) (fun _ => True).
 Proof.
   intros Hs. unfold swap.
   eapply safe_bind; [apply pure_safe, pure_rd|]. intros a _.
@@ -246,7 +381,7 @@ Proof.
   eapply safe_bind; [now apply safe_wr|]. intros _ _. now apply safe_wr.
 Qed.
 
-Lemma safe_copy_go P n dst vs : okS n dst \/ inP P dst -> safe P n (copy_go dst vs) (fun _ => True).
+Lemma safe_copy_go P W n dst vs : okS n dst \/ inP P dst -> safe P W n (copy_go dst vs) (fun _ => True).
 Proof.
   intros Hs m a m' Hn H. unfold copy_go in H. injection H as <- <-. split; [|exact I].
   apply same_outside_write_from; [exact Hn|].
@@ -258,9 +393,9 @@ Qed.
 
 (* append: either it stays in the array of s (then the cells right behind the
    window must be writable) or the result is a new array *)
-Lemma safe_append (P : nat -> nat -> Prop) n slack s (vs : list Z) :
+Lemma safe_append (P : nat -> nat -> Prop) W n slack s (vs : list Z) :
   (okS n s \/ (s_len s + length vs <= s_cap s -> forall j, j < length vs -> P (s_arr s) (s_off s + s_len s + j))) ->
-  safe P n (append slack s vs)
+  safe P W n (append slack s vs)
        (fun r => s_len r = s_len s + length vs /\
                  ((s_arr r = s_arr s /\ s_off r = s_off s /\ s_cap r = s_cap s /\ s_len s + length vs <= s_cap s)
                   \/ n <= s_arr r)).
@@ -275,7 +410,7 @@ Proof.
 Qed.
 
 (* appending to a slice that cannot reach old arrays yields another such slice *)
-Lemma safe_append_ok (P : nat -> nat -> Prop) n slack s (vs : list Z) : okS n s -> safe P n (append slack s vs) (okS n).
+Lemma safe_append_ok (P : nat -> nat -> Prop) W n slack s (vs : list Z) : okS n s -> safe P W n (append slack s vs) (okS n).
 Proof.
   intros Hs. eapply safe_weaken; [apply safe_append; now left|].
   intros r [Hlen [[Ha [Ho [Hc Hfit]]]|Hfresh]]; [|now left].
@@ -285,121 +420,465 @@ Qed.
 Lemma okS_empty n : okS n empty_slice.
 Proof. right. auto. Qed.
 
+(* map stores: the map is new, or it is one of the maps W *)
+Lemma safe_m_store P (W : nat -> Prop) n id k v : (n <= id \/ W id) -> safe P W n (m_store id k v) (fun _ => True).
+Proof.
+  intros Hw m a m' Hn H. unfold m_store in H. injection H as <- <-. split; [|exact I].
+  now apply same_outside_set_obj.
+Qed.
+Lemma safe_m_delete P (W : nat -> Prop) n id k : (n <= id \/ W id) -> safe P W n (m_delete id k) (fun _ => True).
+Proof.
+  intros Hw m a m' Hn H. unfold m_delete in H. injection H as <- <-. split; [|exact I].
+  now apply same_outside_set_obj.
+Qed.
+
+(* association lists of fresh slices (kvMap of DuplicateWithIndex, the groups of GroupBy) *)
+Lemma lookup_Forall {V} (Q : V -> Prop) (l : amapV V) k e :
+  Forall (fun kv => Q (snd kv)) l -> lookup l k = Some e -> Q e.
+Proof.
+  induction l as [|[k' v'] l IH]; cbn; intros HF H; [discriminate|].
+  inversion HF as [|? ? Hv Hl]; subst. destruct (k' =? k)%Z; [injection H as <-; exact Hv|now apply IH].
+Qed.
+Lemma map_set_Forall {V} (Q : V -> Prop) (l : amapV V) k e :
+  Forall (fun kv => Q (snd kv)) l -> Q e -> Forall (fun kv => Q (snd kv)) (map_set l k e).
+Proof.
+  induction l as [|[k' v'] l IH]; cbn; intros HF He; [now constructor|].
+  inversion HF as [|? ? Hv Hl]; subst. destruct (k' =? k)%Z; constructor; auto.
+Qed.
+
+(* ---------- one step of a proof: bind with a primitive ---------- *)
+
+Ltac ok_side := first [ assumption | apply okS_empty | (left; assumption) | (left; left; assumption) ].
+Ltac prim :=
+  first
+    [ apply safe_make_slice_ok
+    | apply safe_make_map
+    | apply safe_lit_map
+    | (apply safe_append_ok; ok_side)
+    | (apply safe_wr; left; ok_side)
+    | (apply safe_swap; left; ok_side)
+    | (apply safe_copy_go; left; ok_side)
+    | (apply safe_m_store; left; ok_side)
+    | (apply safe_m_delete; left; ok_side)
+    | (apply safe_ro; solve [ro_tac]) ].
+Ltac sbind := eapply safe_bind; [prim|]; intros ? ?.
+
+(* ------------------------------------------------------------------ *)
+(* the read-only helpers                                                *)
+
+Lemma first_index_ro idxs cond s : ro (first_index idxs cond s).
+Proof. unfold first_index. ro_tac. Qed.
+Lemma scan_bool_ro cond hit miss s : ro (scan_bool cond hit miss s).
+Proof. unfold scan_bool. ro_tac. Qed.
+Lemma contains_go_ro s v : ro (contains_go s v).
+Proof. apply scan_bool_ro. Qed.
+Lemma find_ext_ro less s : ro (find_ext less s).
+Proof. unfold find_ext. ro_tac. Qed.
+Lemma min_max_go_ro less s : ro (min_max_go less s).
+Proof. unfold min_max_go. ro_tac. Qed.
+Lemma nth_go_ro s k : ro (nth_go s k).
+Proof. unfold nth_go. ro_tac. Qed.
+Lemma sum_go_ro s : ro (sum_go s).
+Proof. unfold sum_go. ro_tac. Qed.
+Lemma sum_by_go_ro fn s : ro (sum_by_go fn s).
+Proof. unfold sum_by_go. ro_tac. Qed.
+Lemma mean_go_ro s : ro (mean_go s).
+Proof. unfold mean_go. ro_tac. Qed.
+Lemma for_each_go_ro s : ro (for_each_go s).
+Proof. unfold for_each_go. ro_tac. Qed.
+Lemma for_each_right_go_ro s : ro (for_each_right_go s).
+Proof. unfold for_each_right_go. ro_tac. Qed.
+Lemma reduce_go_ro fn init s : ro (reduce_go fn init s).
+Proof. unfold reduce_go. ro_tac. Qed.
+Lemma map_scan_ro cond hit miss id : ro (map_scan cond hit miss id).
+Proof. unfold map_scan. ro_tac. Qed.
+Lemma find_key_mem_ro fn id : ro (find_key_mem fn id).
+Proof. unfold find_key_mem. ro_tac. Qed.
+
+(* induction on the nested argument of Flatten *)
+Lemma nest_ind' (Pn : nest -> Prop) :
+  (forall v, Pn (NItem v)) -> (forall s, Pn (NSlice s)) -> (forall l, Forall Pn l -> Pn (NList l)) -> Pn NBad ->
+  forall x, Pn x.
+Proof.
+  intros Hi Hs Hl Hb. fix F 1. intros [v|s|l|].
+  - apply Hi.
+  - apply Hs.
+  - apply Hl. induction l as [|x l IH]; constructor; [apply F|exact IH].
+  - exact Hb.
+Qed.
+
 (* ------------------------------------------------------------------ *)
 (* the helpers that build their result in fresh storage                  *)
 
 Section Fresh.
   Variable slack : nat -> nat -> nat.
   Variable P : nat -> nat -> Prop.
+  Variable W : nat -> Prop.
   Variable n : nat.
 
-  Ltac rd_step := eapply safe_bind; [apply pure_safe; first [apply pure_rd | apply pure_values]|]; intros ? _.
+  Notation okmap := (fun id : nat => n <= id).
 
-  Lemma filter_go_safe fn s : safe P n (filter_go slack fn s) (okS n).
+  Ltac rd_step := eapply safe_bind; [apply safe_ro; solve [ro_tac]|]; intros ? _.
+  Tactic Notation "rd_as" ident(x) := eapply safe_bind; [apply safe_ro; solve [ro_tac]|]; intros x _.
+
+  Lemma filter_go_safe fn s : safe P W n (filter_go slack fn s) (okS n).
   Proof.
-    unfold filter_go. eapply safe_bind; [apply safe_make_slice|]. intros res (Hres & _).
-    apply safe_for_each; [|now left]. intros i st Hst. rd_step.
+    unfold filter_go. sbind. apply safe_for_each; [|assumption]. intros i st Hst. rd_step.
     destruct (fn _); [now apply safe_append_ok|now apply safe_ret].
   Qed.
 
-  Lemma map_go_safe fn s : safe P n (map_go fn s) (okS n).
+  Lemma map_go_safe fn s : safe P W n (map_go fn s) (okS n).
   Proof.
-    unfold map_go. eapply safe_bind; [apply safe_make_slice|]. intros res (Hres & _).
-    eapply safe_bind.
-    - apply (safe_for_each P n _ _ (fun _ => True)); [|exact I]. intros i st _. rd_step.
-      apply safe_wr. left. now left.
-    - intros _ _. apply safe_ret. now left.
+    unfold map_go. sbind. eapply safe_bind.
+    - apply (safe_for_each P W n _ _ (fun _ => True)); [|exact I]. intros i st _. rd_step.
+      apply safe_wr. now left.
+    - intros _ _. now apply safe_ret.
   Qed.
 
-  Lemma unique_by_go_safe fn s : safe P n (unique_by_go slack fn s) (okS n).
+  Lemma unique_by_go_safe fn s : safe P W n (unique_by_go slack fn s) (okS n).
   Proof.
     unfold unique_by_go. eapply safe_bind.
-    - apply (safe_for_each P n _ _ (fun st : list Z * slice => okS n (snd st))); [|apply okS_empty].
+    - apply (safe_for_each P W n _ _ (fun st : list Z * slice => okS n (snd st))); [|apply okS_empty].
       intros i [keys result] Hst. cbn in Hst. rd_step.
-      destruct (memz _ keys); [now apply safe_ret|].
-      eapply safe_bind; [now apply safe_append_ok|]. intros r Hr. now apply safe_ret.
+      destruct (memz _ keys); [now apply safe_ret|]. sbind. now apply safe_ret.
     - intros st Hst. now apply safe_ret.
   Qed.
 
-  Lemma unique_go_safe s : safe P n (unique_go slack s) (okS n).
+  Lemma unique_go_safe s : safe P W n (unique_go slack s) (okS n).
   Proof.
     unfold unique_go. eapply safe_bind.
-    - apply (safe_for_each P n _ _ (fun st : list Z * slice => okS n (snd st))); [|apply okS_empty].
+    - apply (safe_for_each P W n _ _ (fun st : list Z * slice => okS n (snd st))); [|apply okS_empty].
       intros i [keys result] Hst. cbn in Hst. rd_step.
-      destruct (memz _ keys); [now apply safe_ret|].
-      eapply safe_bind; [now apply safe_append_ok|]. intros r Hr. now apply safe_ret.
+      destruct (memz _ keys); [now apply safe_ret|]. sbind. now apply safe_ret.
     - intros st Hst. now apply safe_ret.
   Qed.
 
-  Lemma partition_go_safe fn s : safe P n (partition_go slack fn s) (Forall (okS n)).
+  Lemma partition_go_safe fn s : safe P W n (partition_go slack fn s) (Forall (okS n)).
   Proof.
     unfold partition_go. eapply safe_bind.
-    - apply (safe_for_each P n _ _ (fun st : slice * slice => okS n (fst st) /\ okS n (snd st)));
+    - apply (safe_for_each P W n _ _ (fun st : slice * slice => okS n (fst st) /\ okS n (snd st)));
         [|split; apply okS_empty].
       intros i [r0 r1] [H0 H1]. cbn in H0, H1. rd_step.
-      destruct (fn _).
-      + eapply safe_bind; [now apply safe_append_ok|]. intros r Hr. now apply safe_ret.
-      + eapply safe_bind; [now apply safe_append_ok|]. intros r Hr. now apply safe_ret.
+      destruct (fn _); sbind; now apply safe_ret.
     - intros [r0 r1] [H0 H1]. apply safe_ret. cbn. auto.
   Qed.
 
-  Lemma merge_go_safe s params : safe P n (merge_go slack s params) (okS n).
+  Lemma duplicate_go_safe s : safe P W n (duplicate_go slack s) (okS n).
   Proof.
-    unfold merge_go. eapply safe_bind; [apply safe_make_slice|]. intros merged (Hm & _).
-    rd_step. eapply safe_bind; [apply safe_append_ok; now left|]. intros merged' Hm'.
-    apply safe_for_each; [|exact Hm']. intros i st Hst. rd_step. now apply safe_append_ok.
+    unfold duplicate_go. sbind. rd_step.
+    apply safe_for_each; [|assumption]. intros kv st Hst.
+    destruct (_ <? _)%Z; [now apply safe_append_ok|now apply safe_ret].
   Qed.
 
-  Lemma intersection_go_safe params : safe P n (intersection_go slack params) (okS n).
+  Lemma duplicate_with_index_go_safe s : safe P W n (duplicate_with_index_go s) okmap.
   Proof.
-    unfold intersection_go. destruct params as [|p0 rest]; [apply safe_fail|].
+    unfold duplicate_with_index_go. sbind. eapply safe_bind.
+    - apply (safe_for_each P W n _ _ (fun st : Z * amapV slice => Forall (fun kv => okS n (snd kv)) (snd st)));
+        [|constructor].
+      intros idx [count kvMap] Hst. cbn in Hst. rd_step.
+      destruct (lookup kvMap _) as [e|] eqn:El.
+      + assert (He : okS n e) by (eapply (lookup_Forall (okS n)); eassumption).
+        sbind. now apply safe_ret.
+      + sbind. sbind. sbind. apply safe_ret. cbn. now apply map_set_Forall.
+    - intros [count kvMap] Hst. cbn in Hst. eapply safe_bind.
+      + apply (safe_for_each_in P W n _ _ (fun _ : unit => True)); [|exact I].
+        intros kv st Hin _. rd_step. destruct (_ <? _)%Z; [|now apply safe_ret]. rd_step.
+        apply safe_m_store. now left.
+      + intros _ _. now apply safe_ret.
+  Qed.
+
+  Lemma merge_go_safe s tbl params : safe P W n (merge_go slack s tbl params) (okS n).
+  Proof.
+    unfold merge_go. sbind. rd_step. sbind.
+    apply safe_for_each; [|assumption]. intros i st Hst. rd_step. rd_step. now apply safe_append_ok.
+  Qed.
+
+  Definition ok_opt (r : option slice) : Prop := match r with Some s => okS n s | None => True end.
+
+  Lemma base_flatten_safe x : forall acc, okS n acc -> safe P W n (base_flatten slack acc x) ok_opt.
+  Proof.
+    induction x as [v|s|l IH|] using nest_ind'; intros acc Hacc; cbn [base_flatten].
+    - sbind. now apply safe_ret.
+    - rd_step. sbind. now apply safe_ret.
+    - revert acc Hacc. induction IH as [|x l Hx Hl IHl]; intros acc Hacc.
+      + now apply safe_ret.
+      + eapply safe_bind; [now apply Hx|]. intros [acc'|] Hr; [now apply IHl|now apply safe_ret].
+    - now apply safe_ret.
+  Qed.
+
+  Lemma flatten_go_safe x : safe P W n (flatten_go slack x) (okS n).
+  Proof.
+    unfold flatten_go. eapply safe_bind; [apply base_flatten_safe, okS_empty|].
+    intros [r|] Hr; apply safe_ret; [exact Hr|apply okS_empty].
+  Qed.
+
+  Lemma union_go_safe x : safe P W n (union_go slack x) (okS n).
+  Proof.
+    unfold union_go. eapply safe_bind; [apply base_flatten_safe, okS_empty|].
+    intros [r|] Hr; [apply unique_go_safe|apply safe_ret, okS_empty].
+  Qed.
+
+  Lemma intersection_with_safe has tbl params : safe P W n (intersection_with slack has tbl params) (okS n).
+  Proof.
+    unfold intersection_with. rd_step.
     apply safe_for_each; [|apply okS_empty]. intros i result Hres. rd_step. rd_step.
-    destruct (memz _ _); [now apply safe_ret|].
-    eapply safe_bind.
-    - apply (safe_for_each P n _ _ (fun _ : bool => True)); [|exact I].
-      intros j ok _. destruct ok; [|now apply safe_ret]. rd_step. now apply safe_ret.
-    - intros all _. destruct all; [now apply safe_append_ok|now apply safe_ret].
+    destruct (memz _ _); [now apply safe_ret|]. rd_as all.
+    destruct all; [now apply safe_append_ok|now apply safe_ret].
   Qed.
 
-  Lemma without_go_safe s vals : safe P n (without_go slack s vals) (okS n).
+  Lemma without_go_safe s vals : safe P W n (without_go slack s vals) (okS n).
   Proof.
-    unfold without_go. eapply safe_bind; [apply safe_make_slice|]. intros uni (Hu & _).
-    eapply safe_bind.
-    - apply (safe_for_each P n _ _ (fun st : list Z * slice => okS n (snd st))); [|now left].
+    unfold without_go. sbind. eapply safe_bind.
+    - apply (safe_for_each P W n _ _ (fun st : list Z * slice => okS n (snd st))); [|assumption].
       intros i [keys u] Hst. cbn in Hst. rd_step. rd_step.
       destruct (memz _ _); [now apply safe_ret|]. destruct (memz _ keys); [now apply safe_ret|].
-      eapply safe_bind; [now apply safe_append_ok|]. intros r Hr. now apply safe_ret.
+      sbind. now apply safe_ret.
     - intros st Hst. now apply safe_ret.
   Qed.
 
-  Lemma difference_go_safe s1 s2 : safe P n (difference_go slack s1 s2) (okS n).
+  Lemma difference_go_safe s1 s2 : safe P W n (difference_go slack s1 s2) (okS n).
   Proof.
     unfold difference_go. eapply safe_bind.
-    - apply (safe_for_each P n _ _ (fun st : list Z * slice => okS n (snd st))); [|apply okS_empty].
+    - apply (safe_for_each P W n _ _ (fun st : list Z * slice => okS n (snd st))); [|apply okS_empty].
       intros i [keys u] Hst. cbn in Hst. rd_step. rd_step.
       destruct (memz _ _); [now apply safe_ret|]. destruct (memz _ keys); [now apply safe_ret|].
-      eapply safe_bind; [now apply safe_append_ok|]. intros r Hr. now apply safe_ret.
+      sbind. now apply safe_ret.
     - intros st Hst. now apply safe_ret.
   Qed.
 
-  Lemma drop_while_go_safe fn s : safe P n (drop_while_go slack fn s) (okS n).
+  Lemma difference_by_go_safe fn s1 s2 : safe P W n (difference_by_go slack fn s1 s2) (okS n).
   Proof.
-    unfold drop_while_go. eapply safe_bind; [apply safe_make_slice|]. intros res (Hres & _).
-    apply safe_for_each; [|now left]. intros i st Hst. rd_step.
+    unfold difference_by_go. eapply safe_bind.
+    - apply (safe_for_each P W n _ _ (fun st : list Z * slice => okS n (snd st))); [|apply okS_empty].
+      intros i [keys u] Hst. cbn in Hst. rd_step. rd_step.
+      destruct (existsb _ _); [now apply safe_ret|]. destruct (memz _ keys); [now apply safe_ret|].
+      sbind. now apply safe_ret.
+    - intros st Hst. now apply safe_ret.
+  Qed.
+
+  Lemma drop_while_go_safe fn s : safe P W n (drop_while_go slack fn s) (okS n).
+  Proof.
+    unfold drop_while_go. sbind. apply safe_for_each; [|assumption]. intros i st Hst. rd_step.
     destruct (fn _); [now apply safe_ret|now apply safe_append_ok].
   Qed.
 
-  Lemma drop_right_while_go_safe fn s : safe P n (drop_right_while_go slack fn s) (okS n).
+  Lemma drop_right_while_go_safe fn s : safe P W n (drop_right_while_go slack fn s) (okS n).
   Proof.
-    unfold drop_right_while_go. eapply safe_bind; [apply safe_make_slice|]. intros res (Hres & _).
-    apply safe_for_each; [|now left]. intros i st Hst. rd_step.
+    unfold drop_right_while_go. sbind. apply safe_for_each; [|assumption]. intros i st Hst. rd_step.
     destruct (fn _); [now apply safe_ret|now apply safe_append_ok].
   Qed.
 
-  Lemma to_slice_go_safe args : safe P n (to_slice_go slack args) (okS n).
+  Lemma map_by_index_go_safe orig ms : safe P W n (map_by_index_go slack orig ms) (Forall (fun kv => okS n (snd kv))).
   Proof.
-    unfold to_slice_go. eapply safe_bind; [apply safe_make_slice|]. intros sl (Hs & _).
-    rd_step. apply safe_append_ok. now left.
+    unfold map_by_index_go. apply safe_for_each; [|constructor]. intros idx result Hres. rd_step.
+    eapply safe_bind with (Q := okS n).
+    - destruct (lookup result _) as [e|] eqn:El; [|apply safe_make_slice_ok].
+      apply safe_ret. eapply (lookup_Forall (okS n)); eassumption.
+    - intros cur Hcur. rd_step. sbind. apply safe_ret. now apply map_set_Forall.
+  Qed.
+
+  Lemma group_by_go_safe fn s : safe P W n (group_by_go slack fn s) (Forall (fun kv => okS n (snd kv))).
+  Proof. unfold group_by_go. eapply safe_bind; [apply map_go_safe|]. intros ms _. apply map_by_index_go_safe. Qed.
+
+  Lemma zip_alloc_safe tbl slices : safe P W n (zip_alloc tbl slices) (Forall (okS n)).
+  Proof.
+    unfold zip_alloc. rd_step. destruct (negb _); [apply safe_fail|].
+    apply safe_for_each; [|constructor]. intros idx acc Hacc. rd_step.
+    destruct (negb _); [apply safe_fail|]. sbind. apply safe_ret. apply Forall_app. split; [assumption|now constructor].
+  Qed.
+
+  Lemma Forall_nth_ok (l : list slice) i : Forall (okS n) l -> okS n (nth i l empty_slice).
+  Proof.
+    intros H. destruct (Nat.lt_ge_cases i (length l)) as [Hi|Hi].
+    - rewrite Forall_forall in H. apply H. now apply nth_In.
+    - rewrite nth_overflow by exact Hi. apply okS_empty.
+  Qed.
+
+  Lemma zip_go_safe tbl slices : safe P W n (zip_go tbl slices) (Forall (okS n)).
+  Proof.
+    unfold zip_go. eapply safe_bind; [apply zip_alloc_safe|]. intros result Hres. eapply safe_bind.
+    - apply (safe_for_each P W n _ _ (fun _ : unit => True)); [|exact I]. intros x st _.
+      apply (safe_for_each P W n _ _ (fun _ : unit => True)); [|exact I]. intros i st' _. rd_step. rd_step.
+      apply safe_wr. left. now apply Forall_nth_ok.
+    - intros _ _. now apply safe_ret.
+  Qed.
+
+  Lemma unzip_go_safe tbl slices : safe P W n (unzip_go tbl slices) (Forall (okS n)).
+  Proof.
+    unfold unzip_go. eapply safe_bind; [apply zip_alloc_safe|]. intros result Hres. eapply safe_bind.
+    - apply (safe_for_each P W n _ _ (fun _ : unit => True)); [|exact I]. intros x st _.
+      apply (safe_for_each P W n _ _ (fun _ : unit => True)); [|exact I]. intros i st' _. rd_step. rd_step.
+      apply safe_wr. left. now apply Forall_nth_ok.
+    - intros _ _. now apply safe_ret.
+  Qed.
+
+  Lemma to_slice_go_safe args : safe P W n (to_slice_go slack args) (okS n).
+  Proof. unfold to_slice_go. sbind. rd_step. now apply safe_append_ok. Qed.
+
+  Lemma shuffle_go_safe rnd src : safe P W n (shuffle_go rnd src) (okS n).
+  Proof.
+    unfold shuffle_go. sbind. rd_step. sbind. eapply safe_bind.
+    - apply (safe_for_each P W n _ _ (fun _ : nat => True)); [|exact I]. intros i k _. sbind. now apply safe_ret.
+    - intros _ _. now apply safe_ret.
+  Qed.
+
+  Lemma find_all_go_safe fn s : safe P W n (find_all_go fn s) okmap.
+  Proof.
+    unfold find_all_go. sbind. eapply safe_bind.
+    - apply (safe_for_each P W n _ _ (fun _ : unit => True)); [|exact I]. intros k st _. rd_step.
+      destruct (fn _); [|now apply safe_ret]. apply safe_m_store. now left.
+    - intros _ _. now apply safe_ret.
+  Qed.
+
+  Lemma range_up_safe fuel : forall i step e acc, okS n acc -> safe P W n (range_up slack fuel i step e acc) (okS n).
+  Proof.
+    induction fuel as [|f IH]; intros i step e acc Hacc; cbn [range_up].
+    - destruct (i <? e)%Z; [apply safe_fail|now apply safe_ret].
+    - destruct (i <? e)%Z; [|now apply safe_ret]. sbind. now apply IH.
+  Qed.
+  Lemma range_down_safe fuel : forall i step e acc, okS n acc -> safe P W n (range_down slack fuel i step e acc) (okS n).
+  Proof.
+    induction fuel as [|f IH]; intros i step e acc Hacc; cbn [range_down].
+    - destruct (e <? i)%Z; [apply safe_fail|now apply safe_ret].
+    - destruct (e <? i)%Z; [|now apply safe_ret]. sbind. now apply IH.
+  Qed.
+
+  Lemma range_go_safe args : safe P W n (range_go slack args) ok_opt.
+  Proof.
+    unfold range_go. destruct (3 <? s_len args); [now apply safe_ret|]. rd_as cfg.
+    destruct cfg as [[[start step] e]|]; [|now apply safe_ret].
+    destruct (0 <? e)%Z.
+    - eapply safe_bind; [apply range_up_safe, okS_empty|]. intros r Hr. now apply safe_ret.
+    - eapply safe_bind; [apply range_down_safe, okS_empty|]. intros r Hr. now apply safe_ret.
+  Qed.
+
+  Lemma reverse_loop_safe s fuel : okS n s \/ inP P s -> forall i j, safe P W n (reverse_loop fuel s i j) (fun _ => True).
+  Proof.
+    intros Hs. induction fuel as [|f IH]; intros i j; cbn [reverse_loop].
+    - destruct (i <? j); [apply safe_fail|now apply safe_ret].
+    - destruct (i <? j); [|now apply safe_ret].
+      eapply safe_bind; [now apply safe_swap|]. intros _ _. apply IH.
+  Qed.
+
+  Lemma reverse_go_safe s : okS n s \/ inP P s -> safe P W n (reverse_go s) (fun r => r = s).
+  Proof.
+    intros Hs. unfold reverse_go. eapply safe_bind; [now apply reverse_loop_safe|]. intros _ _. now apply safe_ret.
+  Qed.
+
+  Lemma range_right_go_safe args : safe P W n (range_right_go slack args) ok_opt.
+  Proof.
+    unfold range_right_go. eapply safe_bind; [apply range_go_safe|]. intros [ran|] Hr; [|now apply safe_ret].
+    eapply safe_bind; [apply reverse_go_safe; now left|]. intros rr ->. now apply safe_ret.
+  Qed.
+
+  Lemma slice_to_map_go_safe s1 s2 : safe P W n (slice_to_map_go s1 s2) okmap.
+  Proof.
+    unfold slice_to_map_go. sbind. destruct (negb _); [apply safe_fail|]. eapply safe_bind.
+    - apply (safe_for_each P W n _ _ (fun _ : unit => True)); [|exact I]. intros i st _. rd_step. rd_step.
+      apply safe_m_store. now left.
+    - intros _ _. now apply safe_ret.
+  Qed.
+
+  (* --- the map helpers --- *)
+
+  Lemma keys_mem_safe id : safe P W n (keys_mem id) (okS n).
+  Proof.
+    unfold keys_mem. rd_step. sbind. eapply safe_bind.
+    - apply (safe_for_each P W n _ _ (fun _ : nat => True)); [|exact I]. intros kv idx _. sbind. now apply safe_ret.
+    - intros _ _. now apply safe_ret.
+  Qed.
+  Lemma values_mem_safe id : safe P W n (values_mem id) (okS n).
+  Proof.
+    unfold values_mem. rd_step. sbind. eapply safe_bind.
+    - apply (safe_for_each P W n _ _ (fun _ : nat => True)); [|exact I]. intros kv idx _. sbind. now apply safe_ret.
+    - intros _ _. now apply safe_ret.
+  Qed.
+  Lemma map_collection_mem_safe fn id : safe P W n (map_collection_mem fn id) (okS n).
+  Proof.
+    unfold map_collection_mem. rd_step. sbind. eapply safe_bind.
+    - apply (safe_for_each P W n _ _ (fun _ : nat => True)); [|exact I]. intros kv idx _. sbind. now apply safe_ret.
+    - intros _ _. now apply safe_ret.
+  Qed.
+
+  (* the shape  `r := make(map); es := range m; for es { maybe r[..] = .. }; return r` *)
+  Ltac map_builder :=
+    sbind; rd_step; eapply safe_bind;
+    [ apply (safe_for_each P W n _ _ (fun _ : unit => True)); [|exact I]; intros kv st _
+    | intros _ _; now apply safe_ret ].
+
+  Lemma map_values_mem_safe fn id : safe P W n (map_values_mem fn id) okmap.
+  Proof. unfold map_values_mem. map_builder. apply safe_m_store. now left. Qed.
+  Lemma map_keys_mem_safe fn id : safe P W n (map_keys_mem fn id) okmap.
+  Proof. unfold map_keys_mem. map_builder. apply safe_m_store. now left. Qed.
+  Lemma filter_map_mem_safe fn id : safe P W n (filter_map_mem fn id) okmap.
+  Proof. unfold filter_map_mem. map_builder. destruct (fn _); [apply safe_m_store; now left|now apply safe_ret]. Qed.
+  Lemma pick_by_mem_safe fn coll : safe P W n (pick_by_mem fn coll) okmap.
+  Proof.
+    unfold pick_by_mem. map_builder. destruct (fn _ _); [|now apply safe_ret]. rd_step. apply safe_m_store. now left.
+  Qed.
+
+  Lemma map_unique_mem_safe id : safe P W n (map_unique_mem id) okmap.
+  Proof.
+    unfold map_unique_mem. sbind. rd_step. eapply safe_bind.
+    - apply (safe_for_each P W n _ _ (fun _ : list Z => True)); [|exact I]. intros kv ref _.
+      destruct (memz _ _); [now apply safe_ret|]. sbind. now apply safe_ret.
+    - intros _ _. now apply safe_ret.
+  Qed.
+
+  Lemma sort_in_place_safe s : okS n s -> safe P W n (sort_in_place s) (fun _ => True).
+  Proof. intros Hs. unfold sort_in_place. rd_step. apply safe_copy_go. now left. Qed.
+
+  Lemma find_mem_safe fn id : safe P W n (find_mem fn id) okmap.
+  Proof.
+    unfold find_mem. sbind. rd_step. sbind. eapply safe_bind.
+    { apply (safe_for_each P W n _ _ (fun _ : nat => True)); [|exact I]. intros kv idx _. sbind. now apply safe_ret. }
+    intros _ _. eapply safe_bind; [now apply sort_in_place_safe|]. intros _ _. eapply safe_bind.
+    - apply (safe_for_each P W n _ _ (fun _ : bool => True)); [|exact I]. intros i done _.
+      destruct done; [now apply safe_ret|]. rd_step. rd_step.
+      destruct (fn _); [|now apply safe_ret]. sbind. now apply safe_ret.
+    - intros _ _. now apply safe_ret.
+  Qed.
+
+  Lemma find_by_key_mem_safe fn id : safe P W n (find_by_key_mem fn id) okmap.
+  Proof.
+    unfold find_by_key_mem. sbind. rd_step. eapply safe_bind with (Q := fun _ => True).
+    - destruct (find _ _); [apply safe_m_store; now left|now apply safe_ret].
+    - intros _ _. now apply safe_ret.
+  Qed.
+
+  Lemma invert_mem_safe id : safe P W n (invert_mem id) okmap.
+  Proof.
+    unfold invert_mem. sbind. eapply safe_bind; [apply keys_mem_safe|]. intros keys Hk. eapply safe_bind.
+    - apply (safe_for_each P W n _ _ (fun _ : unit => True)); [|exact I]. intros i st _. rd_step. rd_step.
+      apply safe_m_store. now left.
+    - intros _ _. now apply safe_ret.
+  Qed.
+
+  Lemma pluck_mem_safe mtbl ms key : safe P W n (pluck_mem slack mtbl ms key) (okS n).
+  Proof.
+    unfold pluck_mem. apply safe_for_each; [|apply okS_empty]. intros i result Hres. rd_step.
+    eapply safe_bind; [apply find_by_key_mem_safe|]. intros mapped _. rd_as ov.
+    destruct ov as [v|]; [now apply safe_append_ok|now apply safe_ret].
+  Qed.
+
+  Lemma find_ext_by_key_mem_safe less mtbl ms key : safe P W n (find_ext_by_key_mem less mtbl ms key) (fun _ => True).
+  Proof.
+    unfold find_ext_by_key_mem. destruct (s_len ms =? 0); [now apply safe_ret|]. rd_step. rd_as o0.
+    destruct o0 as [v0|]; [|now apply safe_ret]. eapply safe_bind.
+    - apply (safe_for_each P W n _ _ (fun _ : Z => True)); [|exact I]. intros i mn _. rd_step.
+      eapply safe_bind; [apply find_by_key_mem_safe|]. intros mapped _. rd_as ov.
+      destruct ov as [v|]; [destruct (less _ _)|]; now apply safe_ret.
+    - intros mn _. now apply safe_ret.
+  Qed.
+
+  Lemma pick_mem_safe coll keys :
+    safe P W n (pick_mem coll keys) (fun r => match r with Some id => n <= id | None => True end).
+  Proof.
+    unfold pick_mem. sbind. destruct (s_len keys =? 0); [now apply safe_ret|]. rd_step. eapply safe_bind.
+    - apply (safe_for_each P W n _ _ (fun _ : unit => True)); [|exact I]. intros kv st _.
+      eapply safe_bind; [apply safe_ro, contains_go_ro|]. intros c _.
+      destruct c; [|now apply safe_ret]. rd_step. apply safe_m_store. now left.
+    - intros _ _. now apply safe_ret.
   Qed.
 End Fresh.
 
@@ -412,12 +891,13 @@ Definition within (s r : slice) : Prop :=
 
 Lemma drop_go_pure s z : pure_on (drop_go s z) (fun r => within s r \/ r = empty_slice).
 Proof.
-  unfold drop_go. destruct (Z.abs z <? Z.of_nat (s_len s))%Z eqn:E; [|apply pure_ret; now right].
-  apply Z.ltb_lt in E.
-  destruct (0 <? z)%Z eqn:E0.
-  - intros m r m' H. destruct (pure_reslice _ _ _ m r m' H) as [-> (Ha & Ho & Hl & _ & Hle & _)].
+  unfold drop_go. destruct ((0 <? z)%Z && (z <? Z.of_nat (s_len s))%Z)%bool eqn:E1.
+  - apply andb_prop in E1 as [E1 E2]. apply Z.ltb_lt in E1. apply Z.ltb_lt in E2.
+    intros m r m' H. destruct (pure_reslice _ _ _ m r m' H) as [-> (Ha & Ho & Hl & _ & Hle & _)].
     split; [reflexivity|]. left. unfold within. lia.
-  - intros m r m' H. destruct (pure_reslice _ _ _ m r m' H) as [-> (Ha & Ho & Hl & _ & Hle & _)].
+  - destruct ((z <=? 0)%Z && (- Z.of_nat (s_len s) <? z)%Z)%bool eqn:E2; [|apply pure_ret; now right].
+    apply andb_prop in E2 as [E2 E3]. apply Z.leb_le in E2. apply Z.ltb_lt in E3.
+    intros m r m' H. destruct (pure_reslice _ _ _ m r m' H) as [-> (Ha & Ho & Hl & _ & Hle & _)].
     split; [reflexivity|]. left. unfold within. lia.
 Qed.
 
@@ -433,6 +913,29 @@ Proof.
     apply pure_ret. apply Forall_app. split; [exact Hres|]. constructor; [|constructor]. unfold within. lia.
 Qed.
 
+(* FilterMapCollection / Filter2DMapCollection only read; what they return are the argument maps *)
+Lemma filter_map_collection_mem_pure fn mtbl ms :
+  pure_on (filter_map_collection_mem fn mtbl ms) (Forall (image mtbl)).
+Proof.
+  unfold filter_map_collection_mem. apply pure_for_each; [|constructor]. intros i filtered Hf.
+  unfold rd_elem. eapply pure_bind; [eapply pure_bind; [apply pure_rd|]; intros c _; apply (pure_ret _ (image mtbl)); now exists c|].
+  intros id Hid. eapply pure_bind; [apply pure_entries|]. intros es _.
+  destruct (existsb _ _); apply pure_ret; [|exact Hf].
+  apply Forall_app. split; [exact Hf|]. now constructor.
+Qed.
+
+Lemma filter_2d_mem_pure fn otbl mtbl coll : pure_on (filter_2d_mem fn otbl mtbl coll) (Forall (image otbl)).
+Proof.
+  unfold filter_2d_mem. apply pure_for_each; [|constructor]. intros i filtered Hf.
+  unfold rd_elem. eapply pure_bind; [eapply pure_bind; [apply pure_rd|]; intros c _; apply (pure_ret _ (image otbl)); now exists c|].
+  intros item Hitem. eapply pure_bind; [apply pure_entries|]. intros es _.
+  eapply pure_bind with (Q := fun _ => True).
+  - apply pure_for_each; [|exact I]. intros e hit _. destruct hit; [now apply pure_ret|].
+    eapply pure_bind; [apply pure_entries|]. intros inner _. now apply pure_ret.
+  - intros hit _. destruct hit; apply pure_ret; [|exact Hf].
+    apply Forall_app. split; [exact Hf|]. now constructor.
+Qed.
+
 (* ------------------------------------------------------------------ *)
 (* the in-place helpers: writes stay inside the window of the argument   *)
 
@@ -442,26 +945,13 @@ Definition win (s : slice) (id i : nat) : Prop := id = s_arr s /\ s_off s <= i <
 Lemma inP_win s : inP (win s) s.
 Proof. intros i Hi. unfold win. lia. Qed.
 
-Lemma reverse_loop_safe n s fuel : forall i j, safe (win s) n (reverse_loop fuel s i j) (fun _ => True).
-Proof.
-  induction fuel as [|f IH]; intros i j; cbn [reverse_loop].
-  - destruct (i <? j); [apply safe_fail|now apply safe_ret].
-  - destruct (i <? j); [|now apply safe_ret].
-    eapply safe_bind; [apply safe_swap; right; apply inP_win|]. intros _ _. apply IH.
-Qed.
-
-Lemma reverse_go_safe n s : safe (win s) n (reverse_go s) (fun r => r = s).
-Proof.
-  unfold reverse_go. eapply safe_bind; [apply reverse_loop_safe|]. intros _ _. now apply safe_ret.
-Qed.
-
 (* Reject: the loop variable `slice` stays a prefix window of the argument (or,
    for a descriptor whose cap is smaller than its len-1, moves to a new array) *)
 Definition prefix_of (n : nat) (s sl : slice) : Prop :=
   (s_arr sl = s_arr s /\ s_off sl = s_off s /\ s_len sl <= s_len s) \/ n <= s_arr sl.
 
-Lemma reject_loop_safe slack n fn s fuel : forall sl i,
-  prefix_of n s sl -> safe (win s) n (reject_loop slack fuel fn sl i) (prefix_of n s).
+Lemma reject_loop_safe slack W n fn s fuel : forall sl i,
+  prefix_of n s sl -> safe (win s) W n (reject_loop slack fuel fn sl i) (prefix_of n s).
 Proof.
   induction fuel as [|f IH]; intros sl i Hsl; cbn [reject_loop].
   - destruct (i <? s_len sl); [apply safe_fail|now apply safe_ret].
@@ -480,16 +970,15 @@ Proof.
       destruct Hsl as [(Hsa & Hso & Hsl)|Hfresh]; [left; lia|right; lia].
 Qed.
 
-Lemma reject_go_safe slack n fn s : safe (win s) n (reject_go slack fn s) (prefix_of n s).
+Lemma reject_go_safe slack W n fn s : safe (win s) W n (reject_go slack fn s) (prefix_of n s).
 Proof. unfold reject_go. apply reject_loop_safe. left. auto. Qed.
 
 (* heap.FromSlice / heap.Sort: every write is a swap inside data *)
-Lemma from_slice_loop_safe n comp data fuel : forall inner i,
-  safe (win data) n (from_slice_loop comp fuel data inner i) (fun _ => True).
+Lemma from_slice_step_safe W n comp data st :
+  safe (win data) W n (from_slice_step comp data st) (fun _ => True).
 Proof.
-  induction fuel as [|f IH]; intros inner i; cbn [from_slice_loop]; [apply safe_fail|].
-  destruct inner.
-  - destruct (_ || _)%bool; [apply IH|].
+  unfold from_slice_step. destruct st as [inner i]. destruct inner.
+  - destruct (_ || _)%bool; [now apply safe_ret|].
     eapply safe_bind; [apply pure_safe, pure_rd|]. intros dl _.
     eapply safe_bind with (Q := fun _ => True).
     + destruct (_ <? _)%Z; [|now apply safe_ret].
@@ -497,18 +986,21 @@ Proof.
     + intros current _.
       eapply safe_bind; [apply pure_safe, pure_rd|]. intros dc _.
       eapply safe_bind; [apply pure_safe, pure_rd|]. intros di _.
-      destruct (negb _); [apply IH|].
-      eapply safe_bind; [apply safe_swap; right; apply inP_win|]. intros _ _. apply IH.
-  - destruct (0 <=? i)%Z; [apply IH|now apply safe_ret].
+      destruct (negb _); [now apply safe_ret|].
+      eapply safe_bind; [apply safe_swap; right; apply inP_win|]. intros _ _. now apply safe_ret.
+  - destruct (0 <=? i)%Z; now apply safe_ret.
 Qed.
 
-Lemma from_slice_go_safe n comp data : safe (win data) n (from_slice_go comp data) (fun r => r = data).
+Lemma from_slice_go_safe W n comp data : safe (win data) W n (from_slice_go comp data) (fun r => r = data).
 Proof.
-  unfold from_slice_go. eapply safe_bind; [apply from_slice_loop_safe|]. intros _ _. now apply safe_ret.
+  unfold from_slice_go. eapply safe_bind.
+  - apply (safe_run_loop (win data) W n _ (fun _ => True) (fun _ => True)); [|exact I].
+    intros x _. eapply safe_weaken; [apply from_slice_step_safe|]. intros [x'|d] _; exact I.
+  - intros _ _. now apply safe_ret.
 Qed.
 
-Lemma move_down_safe n comp data fuel : forall k i,
-  safe (win data) n (move_down comp fuel data k i) (fun _ => True).
+Lemma move_down_safe W n comp data fuel : forall k i,
+  safe (win data) W n (move_down comp fuel data k i) (fun _ => True).
 Proof.
   induction fuel as [|f IH]; intros k i; cbn [move_down]; [apply safe_fail|].
   eapply safe_bind; [apply pure_safe, pure_rd|]. intros di _.
@@ -523,11 +1015,11 @@ Proof.
       eapply safe_bind; [apply safe_swap; right; apply inP_win|]. intros _ _. apply IH.
 Qed.
 
-Lemma sort_go_safe n comp data : safe (win data) n (sort_go comp data) (fun r => n <= s_arr r).
+Lemma sort_go_safe W n comp data : safe (win data) W n (sort_go comp data) (fun r => n <= s_arr r).
 Proof.
   unfold sort_go. eapply safe_bind; [apply from_slice_go_safe|]. intros _ _.
   eapply safe_bind.
-  - apply (safe_for_each (win data) n _ _ (fun _ : unit => True)); [|exact I].
+  - apply (safe_for_each (win data) W n _ _ (fun _ : unit => True)); [|exact I].
     intros i st _. eapply safe_bind; [apply safe_swap; right; apply inP_win|]. intros _ _.
     apply move_down_safe.
   - intros _ _. eapply safe_bind; [apply safe_make_slice|]. intros vals (Hv & _).
@@ -536,54 +1028,172 @@ Proof.
     now apply safe_ret.
 Qed.
 
+(* Omit / OmitBy delete from THAT map (the key slice is only read);
+   PartitionMap stores into the argument maps *)
+Lemma omit_mem_safe P (W : nat -> Prop) n coll keys : W coll -> safe P W n (omit_mem coll keys) (fun r => r = coll).
+Proof.
+  intros Hw. unfold omit_mem.
+  eapply safe_bind; [apply pure_safe, pure_entries|]. intros es _. eapply safe_bind.
+  - apply (safe_for_each P W n _ _ (fun _ : unit => True)); [|exact I]. intros kv st _.
+    eapply safe_bind; [apply safe_ro, contains_go_ro|]. intros c _.
+    destruct c; [apply safe_m_delete; now right|now apply safe_ret].
+  - intros _ _. now apply safe_ret.
+Qed.
+
+Lemma omit_by_mem_safe P (W : nat -> Prop) n fn coll : W coll -> safe P W n (omit_by_mem fn coll) (fun r => r = coll).
+Proof.
+  intros Hw. unfold omit_by_mem.
+  eapply safe_bind; [apply pure_safe, pure_entries|]. intros es _. eapply safe_bind.
+  - apply (safe_for_each P W n _ _ (fun _ : unit => True)); [|exact I]. intros kv st _.
+    destruct (fn _ _); [apply safe_m_delete; now right|now apply safe_ret].
+  - intros _ _. now apply safe_ret.
+Qed.
+
+Lemma partition_map_mem_safe P (W : nat -> Prop) n fn mtbl ms :
+  (forall c, W (mtbl c)) ->
+  safe P W n (partition_map_mem fn mtbl ms) (fun r => Forall (image mtbl) (fst r ++ snd r)).
+Proof.
+  intros Hw. unfold partition_map_mem.
+  apply safe_for_each; [|constructor]. intros i [r0 r1] Hst. cbn [fst snd] in Hst.
+  unfold rd_elem. eapply safe_bind with (Q := image mtbl).
+  { eapply safe_bind; [apply pure_safe, pure_rd|]. intros c _. apply safe_ret. now exists c. }
+  intros id [c ->].
+  eapply safe_bind; [apply pure_safe, pure_entries|]. intros es _.
+  destruct es as [|[k v] es']; [now apply safe_ret|].
+  eapply safe_bind; [apply safe_m_store; right; apply Hw|]. intros _ _.
+  eapply safe_bind; [apply pure_safe, pure_entries|]. intros cur _.
+  apply Forall_app in Hst as [H0 H1].
+  assert (Hc : image mtbl (mtbl c)) by now exists c.
+  destruct (fn cur); apply safe_ret; cbn [fst snd]; rewrite ?Forall_app; repeat split; auto.
+Qed.
+
 (* ------------------------------------------------------------------ *)
 (* one call, whichever helper it is                                      *)
 
-Lemma safe_one {A} P n (c : M A) (Q : A -> Prop) : safe P n c Q -> safe P n (one c) (Forall Q).
+(* a reference through which nothing that existed before the call can be reached *)
+Definition fresh_ref (n : nat) (r : rref) : Prop :=
+  match r with RS _ s => okS n s | RM id => n <= id | RV _ => True end.
+Definition slice_ref (Q : slice -> Prop) (r : rref) : Prop :=
+  match r with RS _ s => Q s | _ => False end.
+Definition map_ref (Q : nat -> Prop) (r : rref) : Prop :=
+  match r with RM id => Q id | _ => False end.
+
+Lemma safe_one {A} P W n (f : A -> rref) (c : M A) (Q : A -> Prop) (R : rref -> Prop) :
+  safe P W n c Q -> (forall a, Q a -> R (f a)) -> safe P W n (one f c) (Forall R).
 Proof.
-  intros H. unfold one. eapply safe_bind; [exact H|]. intros r Hr. apply safe_ret. now constructor.
+  intros H HR. unfold one. eapply safe_bind; [exact H|]. intros r Hr. apply safe_ret. constructor; auto.
 Qed.
 
-Lemma pure_one {A} (c : M A) (Q : A -> Prop) : pure_on c Q -> pure_on (one c) (Forall Q).
+Lemma safe_map_refs {A} P W n (f : A -> rref) (c : M (list A)) (Q : A -> Prop) (R : rref -> Prop) :
+  safe P W n c (Forall Q) -> (forall a, Q a -> R (f a)) -> safe P W n (r <- c ;; ret (map f r))%mem (Forall R).
 Proof.
-  intros H. unfold one. eapply pure_bind; [exact H|]. intros r Hr. apply pure_ret. now constructor.
+  intros H HR. eapply safe_bind; [exact H|]. intros r Hr. apply safe_ret.
+  rewrite Forall_map. eapply Forall_impl; [|exact Hr]. exact HR.
 Qed.
 
-Lemma run_call_fresh_safe slack P n c :
-  in_place_arg c = None -> view_arg c = None -> safe P n (run_call slack c) (Forall (okS n)).
+Lemma safe_scalar P W n (c : M Z) : ro c -> safe P W n (scalar c) (Forall (fresh_ref n)).
+Proof. intros H. unfold scalar. eapply safe_one; [apply safe_ro, H|]. intros a _. exact I. Qed.
+Lemma safe_scalar_b P W n (c : M bool) : ro c -> safe P W n (scalar_b c) (Forall (fresh_ref n)).
+Proof. intros H. unfold scalar_b. eapply safe_one; [apply safe_ro, H|]. intros a _. exact I. Qed.
+
+Lemma pure_one {A} (f : A -> rref) (c : M A) (Q : A -> Prop) (R : rref -> Prop) :
+  pure_on c Q -> (forall a, Q a -> R (f a)) -> pure_on (one f c) (Forall R).
 Proof.
-  intros Hip Hv. destruct c; cbn in Hip, Hv; try discriminate; cbn [run_call].
-  - apply safe_one, merge_go_safe.
-  - apply safe_one, filter_go_safe.
-  - apply safe_one, map_go_safe.
-  - apply safe_one, unique_go_safe.
-  - apply safe_one, unique_by_go_safe.
-  - apply partition_go_safe.
-  - apply safe_one, intersection_go_safe.
-  - apply safe_one, without_go_safe.
-  - apply safe_one, difference_go_safe.
-  - apply safe_one, drop_while_go_safe.
-  - apply safe_one, drop_right_while_go_safe.
-  - apply safe_one, to_slice_go_safe.
+  intros H HR. unfold one. eapply pure_bind; [exact H|]. intros r Hr. apply pure_ret. constructor; auto.
+Qed.
+
+Lemma pure_map_refs {A} (f : A -> rref) (c : M (list A)) (Q : A -> Prop) (R : rref -> Prop) :
+  pure_on c (Forall Q) -> (forall a, Q a -> R (f a)) -> pure_on (r <- c ;; ret (map f r))%mem (Forall R).
+Proof.
+  intros H HR. eapply pure_bind; [exact H|]. intros r Hr. apply pure_ret.
+  rewrite Forall_map. eapply Forall_impl; [|exact Hr]. exact HR.
+Qed.
+
+Lemma run_call_fresh_safe slack P W n c :
+  kind_of c = KFresh -> safe P W n (run_call slack c) (Forall (fresh_ref n)).
+Proof.
+  intros Hk.
+  destruct c; cbn in Hk; try discriminate; cbn [run_call];
+    first
+      [ (* scalars *)
+        (apply safe_scalar;
+         first [ apply sum_go_ro | apply sum_by_go_ro | apply mean_go_ro | apply first_index_ro | apply reduce_go_ro
+               | apply find_ext_ro | apply min_max_go_ro | apply find_key_mem_ro ])
+      | (apply safe_scalar_b; first [ apply scan_bool_ro | apply map_scan_ro ])
+      | (* one slice *)
+        (eapply (safe_one P W n rs _ (okS n));
+         [ first [ apply merge_go_safe | apply filter_go_safe | apply map_go_safe | apply unique_go_safe
+                 | apply unique_by_go_safe | apply duplicate_go_safe | apply flatten_go_safe | apply union_go_safe
+                 | apply intersection_with_safe | apply without_go_safe
+                 | apply difference_go_safe | apply difference_by_go_safe | apply drop_while_go_safe
+                 | apply drop_right_while_go_safe | apply to_slice_go_safe | apply shuffle_go_safe
+                 | apply keys_mem_safe | apply values_mem_safe | apply map_collection_mem_safe | apply pluck_mem_safe ]
+         | intros a Ha; exact Ha ])
+      | (* one map *)
+        (eapply (safe_one P W n RM _ (fun id => n <= id));
+         [ first [ apply duplicate_with_index_go_safe | apply find_all_go_safe | apply slice_to_map_go_safe
+                 | apply map_values_mem_safe | apply map_keys_mem_safe | apply map_unique_mem_safe | apply find_mem_safe
+                 | apply find_by_key_mem_safe | apply invert_mem_safe | apply pick_by_mem_safe | apply filter_map_mem_safe ]
+         | intros a Ha; exact Ha ])
+      | (* lists of slices *)
+        (eapply (safe_map_refs P W n rs _ (okS n));
+         [ first [ apply partition_go_safe | apply zip_go_safe | apply unzip_go_safe ] | intros a Ha; exact Ha ])
+      | idtac ].
+  - (* GroupBy *)
+    eapply (safe_map_refs P W n _ _ (fun kv => okS n (snd kv))); [apply group_by_go_safe|]. intros kv Hkv. exact Hkv.
+  - (* Range *)
+    eapply safe_one; [apply range_go_safe|]. intros [r|] Hr; cbn; [exact Hr|apply okS_empty].
+  - (* RangeRight *)
+    eapply safe_one; [apply range_right_go_safe|]. intros [r|] Hr; cbn; [exact Hr|apply okS_empty].
+  - (* Pick *)
+    eapply safe_bind; [apply pick_mem_safe|]. intros [id|] Hr; apply safe_ret; [|constructor].
+    constructor; [exact Hr|constructor].
+  - (* ForEach *)
+    eapply safe_bind; [apply safe_ro, for_each_go_ro|]. intros _ _. apply safe_ret. constructor.
+  - (* ForEachRight *)
+    eapply safe_bind; [apply safe_ro, for_each_right_go_ro|]. intros _ _. apply safe_ret. constructor.
+  - (* Nth *)
+    eapply safe_one; [apply safe_ro, nth_go_ro|]. intros a _. exact I.
+  - (* FindMinByKey *)
+    eapply safe_one; [apply find_ext_by_key_mem_safe|]. intros a _. exact I.
+  - (* FindMaxByKey *)
+    eapply safe_one; [apply find_ext_by_key_mem_safe|]. intros a _. exact I.
 Qed.
 
 Lemma run_call_view_pure slack c s :
-  view_arg c = Some s -> pure_on (run_call slack c) (Forall (fun r => within s r \/ r = empty_slice)).
+  kind_of c = KViewS s -> pure_on (run_call slack c) (Forall (slice_ref (fun r => within s r \/ r = empty_slice))).
 Proof.
   intros Hv. destruct c; cbn in Hv; try discriminate; injection Hv as ->; cbn [run_call].
-  - apply pure_one, drop_go_pure.
-  - intros m rs m' H. destruct (chunk_go_pure _ _ m rs m' H) as [-> HF]. split; [reflexivity|].
-    eapply Forall_impl; [|exact HF]. intros r Hr. now left.
+  - eapply pure_one; [apply drop_go_pure|]. intros a Ha. exact Ha.
+  - eapply pure_map_refs; [apply chunk_go_pure|]. intros a Ha. cbn. now left.
 Qed.
 
-Lemma run_call_in_place_safe slack n c s :
-  in_place_arg c = Some s -> safe (win s) n (run_call slack c) (Forall (prefix_of n s)).
+Lemma run_call_view_maps_pure slack c Wm :
+  kind_of c = KViewM Wm -> pure_on (run_call slack c) (Forall (map_ref Wm)).
+Proof.
+  intros Hv. destruct c; cbn in Hv; try discriminate; injection Hv as <-; cbn [run_call].
+  - eapply pure_map_refs; [apply filter_map_collection_mem_pure|]. intros a Ha. exact Ha.
+  - eapply pure_map_refs; [apply filter_2d_mem_pure|]. intros a Ha. exact Ha.
+Qed.
+
+Lemma run_call_in_place_safe slack W n c s :
+  kind_of c = KInPlaceS s -> safe (win s) W n (run_call slack c) (Forall (slice_ref (prefix_of n s))).
 Proof.
   intros Hip. destruct c; cbn in Hip; try discriminate; injection Hip as ->; cbn [run_call].
-  - apply safe_one, reject_go_safe.
-  - apply safe_one. eapply safe_weaken; [apply reverse_go_safe|]. intros r ->. left. auto.
-  - apply safe_one. eapply safe_weaken; [apply from_slice_go_safe|]. intros r ->. left. auto.
-  - apply safe_one. eapply safe_weaken; [apply sort_go_safe|]. intros r Hr. now right.
+  - eapply safe_one; [apply reject_go_safe|]. intros a Ha. exact Ha.
+  - eapply safe_one; [apply reverse_go_safe; right; apply inP_win|]. intros r ->. left. auto.
+  - eapply safe_one; [apply from_slice_go_safe|]. intros r ->. left. auto.
+  - eapply safe_one; [apply sort_go_safe|]. intros r Hr. now right.
+Qed.
+
+Lemma run_call_in_place_maps_safe slack P n c Wm :
+  kind_of c = KInPlaceM Wm -> safe P Wm n (run_call slack c) (Forall (map_ref Wm)).
+Proof.
+  intros Hk. destruct c; cbn in Hk; try discriminate; injection Hk as <-; cbn [run_call].
+  - eapply safe_one; [now apply omit_mem_safe|]. intros r ->. reflexivity.
+  - eapply safe_one; [now apply omit_by_mem_safe|]. intros r ->. reflexivity.
+  - eapply safe_bind; [apply partition_map_mem_safe; intros c; now exists c|]. intros r Hr. apply safe_ret.
+    rewrite Forall_map. exact Hr.
 Qed.
 
 (* ------------------------------------------------------------------ *)
@@ -601,74 +1211,276 @@ Proof. intros H. unfold read_all. now rewrite H. Qed.
 Lemma set_nth_same {A} (l : list A) i d : set_nth l i (nth i l d) = l.
 Proof. revert i; induction l as [|h t IH]; intros [|i]; cbn; auto. now rewrite IH. Qed.
 
-
-(* an in-place call leaves every OTHER array, and the rest of its own, alone *)
-Lemma same_outside_win_other_array s m m' id :
-  same_outside (win s) (length m) m m' -> id < length m -> id <> s_arr s -> arr_of m' id = arr_of m id.
+(* outside the writable cells / objects, whole arrays are unchanged *)
+Lemma same_outside_other_array (P : nat -> nat -> Prop) (W : nat -> Prop) m m' id :
+  same_outside P W (length m) m m' -> id < length m -> ~ W id -> (forall i, ~ P id i) -> arr_of m' id = arr_of m id.
 Proof.
-  intros (_ & _ & H) Hid Hne. destruct (H id Hid) as [L C].
+  intros (_ & _ & H) Hid HW HP. destruct (H id Hid HW) as [L C].
   apply nth_ext with (d := 0%Z) (d' := 0%Z); [exact L|].
-  intros i _. apply C. unfold win. tauto.
+  intros i _. apply C. apply HP.
 Qed.
-
-Lemma same_outside_no_new P m m' : same_outside P (length m) m m' -> length m <= length m'.
-Proof. now intros (_ & H & _). Qed.
 
 (* ------------------------------------------------------------------ *)
-(* map memory                                                           *)
+(* maps in the memory                                                   *)
 
-Lemma mm_get_put_same (mm : mmem) id x : id < length mm -> mm_get (mm_put mm id x) id = x.
-Proof. intros H. unfold mm_get, mm_put. now apply nth_set_nth_same. Qed.
-Lemma mm_get_put_other (mm : mmem) id id' x : id' <> id -> mm_get (mm_put mm id x) id' = mm_get mm id'.
-Proof. intros H. unfold mm_get, mm_put. now apply nth_set_nth_other. Qed.
-Lemma mm_put_length (mm : mmem) id x : length (mm_put mm id x) = length mm.
-Proof. apply set_nth_length. Qed.
-
-(* a loop that only ever puts into map id *)
-Definition omit_fold (sel : Z * Z -> bool) (id : nat) (l : amap) (mm : mmem) : mmem :=
-  fold_left (fun mm kv => if sel kv then mm_put mm id (map_delete (mm_get mm id) (fst kv)) else mm) l mm.
-
-Lemma omit_mm_loop (sel : Z * Z -> bool) id (l : amap) : forall mm, id < length mm ->
-  length (omit_fold sel id l mm) = length mm /\
-  (forall id', id' <> id -> mm_get (omit_fold sel id l mm) id' = mm_get mm id') /\
-  mm_get (omit_fold sel id l mm) id
-  = fold_left (fun coll kv => if sel kv then map_delete coll (fst kv) else coll) l (mm_get mm id).
+Lemma unflat_kvflat a : unflat (kvflat a) = a.
 Proof.
-  induction l as [|kv l IH]; intros mm Hid; [cbn; auto|].
-  change (omit_fold sel id (kv :: l) mm)
-    with (omit_fold sel id l (if sel kv then mm_put mm id (map_delete (mm_get mm id) (fst kv)) else mm)).
-  cbn [fold_left].
-  destruct (sel kv).
-  - assert (Hid' : id < length (mm_put mm id (map_delete (mm_get mm id) (fst kv))))
-      by now rewrite mm_put_length.
-    destruct (IH _ Hid') as (L & O & S).
-    split; [now rewrite L, mm_put_length|]. split.
-    + intros id' Hne. rewrite O by exact Hne. now apply mm_get_put_other.
-    + rewrite S. now rewrite mm_get_put_same.
-  - now apply IH.
+  induction a as [|[k v] a IH]; [reflexivity|].
+  change (kvflat ((k, v) :: a)) with (k :: v :: kvflat a). cbn [unflat]. now rewrite IH.
 Qed.
 
-(* PartitionMap's `m[k] = v` writes what is already there: the map memory is unchanged *)
-Lemma mm_put_get_same (mm : mmem) id : mm_put mm id (mm_get mm id) = mm.
-Proof. unfold mm_put, mm_get. apply set_nth_same. Qed.
+Lemma map_of_put_map m id a : id < length m -> map_of (put_map m id a) id = a.
+Proof. intros H. unfold map_of, put_map. rewrite arr_of_set_nth_same by exact H. apply unflat_kvflat. Qed.
 
-Definition nonempty_ids (mm : mmem) (ids : list nat) : list nat :=
-  filter (fun id => negb (is_empty (mm_get mm id))) ids.
+Lemma map_of_put_map_other m id a id' : id' <> id -> map_of (put_map m id a) id' = map_of m id'.
+Proof. intros H. unfold map_of, put_map. now rewrite arr_of_set_nth_other. Qed.
 
-Lemma partition_map_mm_loop (fn : amap -> bool) (mm : mmem) (ids : list nat) : forall r0 r1,
-  fold_left (fun (st : (list nat * list nat) * mmem) id =>
-               let '(r0, r1, mm) := st in
-               match mm_get mm id with
-               | [] => st
-               | (k, v) :: _ =>
-                   let mm' := mm_put mm id (map_set (mm_get mm id) k v) in
-                   if fn (mm_get mm' id) then (r0 ++ [id], r1, mm') else (r0, r1 ++ [id], mm')
-               end) ids ((r0, r1), mm)
-  = ((r0 ++ filter (fun id => fn (mm_get mm id)) (nonempty_ids mm ids),
-      r1 ++ filter (fun id => negb (fn (mm_get mm id))) (nonempty_ids mm ids)), mm).
+Lemma put_map_length m id a : length (put_map m id a) = length m.
+Proof. apply set_nth_length. Qed.
+
+(* an object that is the flat form of a map *)
+Definition is_map (m : mem) (id : nat) : Prop := arr_of m id = kvflat (map_of m id).
+
+Lemma put_map_same m id : is_map m id -> put_map m id (map_of m id) = m.
+Proof. intros H. unfold put_map. rewrite <- H. unfold arr_of. apply set_nth_same. Qed.
+
+Lemma map_set_head {V} (k : Z) (v : V) rest : map_set ((k, v) :: rest) k v = (k, v) :: rest.
+Proof. cbn. now rewrite Z.eqb_refl. Qed.
+
+Lemma map_delete_incl {V} (a : amapV V) k : incl (map_delete a k) a.
 Proof.
-  induction ids as [|id ids IH]; intros r0 r1; cbn; [now rewrite !app_nil_r|].
-  destruct (mm_get mm id) as [|[k v] rest] eqn:E; cbn; [apply IH|].
-  rewrite Z.eqb_refl. rewrite <- E, mm_put_get_same.
-  destruct (fn (mm_get mm id)) eqn:Ef; cbn; rewrite IH; now rewrite <- app_assoc.
+  induction a as [|[k' v'] a IH]; cbn; [apply incl_refl|].
+  destruct (k' =? k)%Z; [apply incl_tl, incl_refl|]. apply incl_cons; [now left|now apply incl_tl].
+Qed.
+
+(* a loop keeps an invariant of the memory that each iteration keeps *)
+Lemma for_each_inv {X S} (Inv : mem -> Prop) (xs : list X) (body : X -> S -> M S) :
+  (forall x st m st' m', In x xs -> Inv m -> body x st m = Some (st', m') -> Inv m') ->
+  forall st m st' m', Inv m -> for_each xs body st m = Some (st', m') -> Inv m'.
+Proof.
+  induction xs as [|x xs IH]; intros Hb st m st' m' Hi H; cbn in H.
+  - injection H as <- <-. exact Hi.
+  - unfold bind in H. destruct (body x st m) as [[st1 m1]|] eqn:E; [|discriminate].
+    apply (IH (fun y st m st' m' Hy => Hb y st m st' m' (or_intror Hy)) st1 m1 st' m'); [|exact H].
+    apply (Hb x st m st1 m1); [now left|exact Hi|exact E].
+Qed.
+
+(* Omit / OmitBy: the entries afterwards are entries that were there before *)
+Lemma omit_mem_submap coll keys m r m' :
+  coll < length m -> omit_mem coll keys m = Some (r, m') ->
+  r = coll /\ length m' = length m /\ incl (map_of m' coll) (map_of m coll).
+Proof.
+  intros Hc H. unfold omit_mem, bind in H. cbn [m_entries] in H.
+  destruct (for_each _ _ tt m) as [[u m1]|] eqn:E; [|discriminate]. cbn in H. injection H as <- <-.
+  split; [reflexivity|].
+  apply (for_each_inv (fun m1 => length m1 = length m /\ incl (map_of m1 coll) (map_of m coll)) _ _) in E; auto.
+  - intros kv st mc st' mc' _ [HL HI] Hb. unfold bind in Hb.
+    destruct (contains_go keys (fst kv) mc) as [[c mc2]|] eqn:Ec; [|discriminate].
+    destruct (contains_go_ro keys (fst kv) mc c mc2 Ec) as [-> _].
+    destruct c; cbn in Hb; injection Hb as <- <-; [|now split].
+    split; [now rewrite put_map_length|].
+    rewrite map_of_put_map by lia. eapply incl_tran; [apply map_delete_incl|exact HI].
+  - split; [reflexivity|apply incl_refl].
+Qed.
+
+Lemma omit_by_mem_submap fn coll m r m' :
+  coll < length m -> omit_by_mem fn coll m = Some (r, m') ->
+  r = coll /\ length m' = length m /\ incl (map_of m' coll) (map_of m coll).
+Proof.
+  intros Hc H. unfold omit_by_mem, bind in H. cbn [m_entries] in H.
+  destruct (for_each _ _ tt m) as [[u m1]|] eqn:E; [|discriminate]. cbn in H. injection H as <- <-.
+  split; [reflexivity|].
+  apply (for_each_inv (fun m1 => length m1 = length m /\ incl (map_of m1 coll) (map_of m coll)) _ _) in E; auto.
+  - intros kv st mc st' mc' _ [HL HI] Hb.
+    destruct (fn _ _); cbn in Hb; injection Hb as <- <-; [|now split].
+    split; [now rewrite put_map_length|].
+    rewrite map_of_put_map by lia. eapply incl_tran; [apply map_delete_incl|exact HI].
+  - split; [reflexivity|apply incl_refl].
+Qed.
+
+(* PartitionMap assigns m[k] = v with the entry it has just read: the memory is unchanged *)
+Lemma partition_map_mem_same fn mtbl ms m r m' :
+  (forall c, is_map m (mtbl c)) ->
+  partition_map_mem fn mtbl ms m = Some (r, m') -> m' = m.
+Proof.
+  intros Hmaps H. unfold partition_map_mem in H.
+  apply (for_each_inv (fun m1 => m1 = m) _ _) in H; auto.
+  intros i [r0 r1] mc st' mc' Hin -> Hb. unfold bind, rd_elem, bind in Hb.
+  destruct (rd ms i m) as [[c m1]|] eqn:Er; [|discriminate].
+  destruct (pure_rd ms i m c m1 Er) as [-> _]. cbn [ret m_entries] in Hb.
+  destruct (map_of m (mtbl c)) as [|[k v] rest] eqn:Em; [cbn in Hb; now injection Hb as <- <-|].
+  cbn [m_store] in Hb. rewrite Em, map_set_head, <- Em, put_map_same in Hb by apply Hmaps.
+  destruct (fn (map_of m (mtbl c))); cbn in Hb; now injection Hb as <- <-.
+Qed.
+
+(* ------------------------------------------------------------------ *)
+(* the statements of C16_Props                                          *)
+
+Lemma frame_refl m : frame m m.
+Proof. exists []. now rewrite app_nil_r. Qed.
+
+Lemma c16_frame slack c m rs m' :
+  not_in_place c ->
+  run_call slack c m = Some (rs, m') ->
+  (exists new_objects, m' = m ++ new_objects) /\
+  (kind_of c = KFresh -> Forall (fresh_ref (length m)) rs).
+Proof.
+  intros Hnip Hrun. unfold not_in_place in Hnip.
+  destruct (kind_of c) as [| | |s|Wm] eqn:Hk; try contradiction.
+  - destruct (run_call_fresh_safe slack noP noW (length m) c Hk m rs m' (le_n _) Hrun) as [S F].
+    split; [now apply same_outside_frame|]. intros _. exact F.
+  - destruct (run_call_view_pure slack c s Hk m rs m' Hrun) as [-> _].
+    split; [apply frame_refl|]. discriminate.
+  - destruct (run_call_view_maps_pure slack c Wm Hk m rs m' Hrun) as [-> _].
+    split; [apply frame_refl|]. discriminate.
+Qed.
+
+Lemma c16_frame_arrays_and_reads slack c m rs m' :
+  not_in_place c ->
+  run_call slack c m = Some (rs, m') ->
+  (forall id, id < length m -> arr_of m' id = arr_of m id) /\
+  (forall s, s_arr s < length m -> read_all m' s = read_all m s) /\
+  (forall id, id < length m -> map_of m' id = map_of m id).
+Proof.
+  intros Hnip Hrun. destruct (c16_frame slack c m rs m' Hnip Hrun) as [Hf _]. split; [|split].
+  - intros id Hid. now apply frame_arr_of.
+  - intros s Hs. now apply frame_read_all.
+  - intros id Hid. unfold map_of. f_equal. now apply frame_arr_of.
+Qed.
+
+Lemma c16_in_place_only_that_arg slack c s m rs m' :
+  kind_of c = KInPlaceS s ->
+  run_call slack c m = Some (rs, m') ->
+  length m <= length m' /\
+  (forall id, id < length m ->
+     length (arr_of m' id) = length (arr_of m id) /\
+     forall i, ~ (id = s_arr s /\ s_off s <= i < s_off s + s_len s) -> cell m' id i = cell m id i) /\
+  Forall (slice_ref (fun r => (s_arr r = s_arr s /\ s_off r = s_off s /\ s_len r <= s_len s) \/ length m <= s_arr r)) rs.
+Proof.
+  intros Hip Hrun.
+  destruct (run_call_in_place_safe slack noW (length m) c s Hip m rs m' (le_n _) Hrun) as [(_ & Hlen & H) F].
+  split; [exact Hlen|]. split; [|exact F]. intros id Hid. apply H; [exact Hid|unfold noW; tauto].
+Qed.
+
+Lemma c16_in_place_other_arrays_untouched slack c s m rs m' id :
+  kind_of c = KInPlaceS s ->
+  run_call slack c m = Some (rs, m') ->
+  id < length m -> id <> s_arr s -> arr_of m' id = arr_of m id.
+Proof.
+  intros Hip Hrun Hid Hne.
+  destruct (run_call_in_place_safe slack noW (length m) c s Hip m rs m' (le_n _) Hrun) as [S _].
+  apply (same_outside_other_array (win s) noW m m' id S Hid); [unfold noW; tauto|].
+  intros i. unfold win. tauto.
+Qed.
+
+Lemma c16_in_place_maps_only_those slack c Wm m rs m' :
+  kind_of c = KInPlaceM Wm ->
+  run_call slack c m = Some (rs, m') ->
+  length m <= length m' /\
+  (forall id, id < length m -> ~ Wm id -> arr_of m' id = arr_of m id) /\
+  Forall (map_ref Wm) rs.
+Proof.
+  intros Hk Hrun.
+  destruct (run_call_in_place_maps_safe slack noP (length m) c Wm Hk m rs m' (le_n _) Hrun) as [S F].
+  split; [now destruct S as (_ & ? & _)|]. split; [|exact F].
+  intros id Hid Hnot. apply (same_outside_other_array noP _ m m' id S Hid Hnot). intros i. unfold noP. tauto.
+Qed.
+
+Lemma c16_omit_only_removes slack coll keys m rs m' :
+  coll < length m ->
+  run_call slack (HOmit coll keys) m = Some (rs, m') ->
+  rs = [RM coll] /\ length m' = length m /\ incl (map_of m' coll) (map_of m coll) /\
+  (forall id, id <> coll -> arr_of m' id = arr_of m id).
+Proof.
+  intros Hc Hrun. assert (Hrun' := Hrun). cbn [run_call] in Hrun. unfold one, bind in Hrun.
+  destruct (omit_mem coll keys m) as [[r m1]|] eqn:E; [|discriminate]. cbn in Hrun. injection Hrun as <- <-.
+  destruct (omit_mem_submap coll keys m r m1 Hc E) as (-> & HL & HI).
+  split; [reflexivity|]. split; [exact HL|]. split; [exact HI|].
+  intros id Hne. destruct (Nat.lt_ge_cases id (length m)) as [Hid|Hid].
+  - destruct (c16_in_place_maps_only_those slack (HOmit coll keys) (eq coll) m _ m1 eq_refl Hrun') as (_ & H & _).
+    apply H; [exact Hid|]. intros ->. now apply Hne.
+  - unfold arr_of. rewrite !nth_overflow by lia. reflexivity.
+Qed.
+
+Lemma c16_omit_by_only_removes slack fn coll m rs m' :
+  coll < length m ->
+  run_call slack (HOmitBy fn coll) m = Some (rs, m') ->
+  rs = [RM coll] /\ length m' = length m /\ incl (map_of m' coll) (map_of m coll) /\
+  (forall id, id <> coll -> arr_of m' id = arr_of m id).
+Proof.
+  intros Hc Hrun. assert (Hrun' := Hrun). cbn [run_call] in Hrun. unfold one, bind in Hrun.
+  destruct (omit_by_mem fn coll m) as [[r m1]|] eqn:E; [|discriminate]. cbn in Hrun. injection Hrun as <- <-.
+  destruct (omit_by_mem_submap fn coll m r m1 Hc E) as (-> & HL & HI).
+  split; [reflexivity|]. split; [exact HL|]. split; [exact HI|].
+  intros id Hne. destruct (Nat.lt_ge_cases id (length m)) as [Hid|Hid].
+  - destruct (c16_in_place_maps_only_those slack (HOmitBy fn coll) (eq coll) m _ m1 eq_refl Hrun') as (_ & H & _).
+    apply H; [exact Hid|]. intros ->. now apply Hne.
+  - unfold arr_of. rewrite !nth_overflow by lia. reflexivity.
+Qed.
+
+Lemma c16_partition_map_writes_nothing slack fn mtbl ms m rs m' :
+  (forall c, is_map m (mtbl c)) ->
+  run_call slack (HPartitionMap fn mtbl ms) m = Some (rs, m') ->
+  m' = m /\ Forall (map_ref (image mtbl)) rs.
+Proof.
+  intros Hmaps Hrun. assert (Hrun' := Hrun). cbn [run_call] in Hrun. unfold bind in Hrun.
+  destruct (partition_map_mem fn mtbl ms m) as [[r m1]|] eqn:E; [|discriminate]. cbn in Hrun. injection Hrun as <- <-.
+  split; [now apply (partition_map_mem_same fn mtbl ms m r m1)|].
+  destruct (partition_map_mem_safe noP (image mtbl) (length m) fn mtbl ms (fun c => ex_intro _ c eq_refl) m r m1 (le_n _) E) as [_ F].
+  rewrite Forall_map. exact F.
+Qed.
+
+(* what a reference shows depends only on the object it names *)
+Lemma read_ref_same_object m m' r :
+  match r with RS _ s => arr_of m' (s_arr s) = arr_of m (s_arr s) \/ s_len s = 0
+             | RM id => arr_of m' id = arr_of m id | RV _ => True end ->
+  read_ref m' r = read_ref m r.
+Proof.
+  destruct r as [pre s|id|v]; cbn; intros H; [|exact H|reflexivity].
+  f_equal. destruct H as [H|H]; [now apply read_all_same_array|now rewrite !read_all_empty].
+Qed.
+
+Definition names_existing (m : mem) (r : rref) : Prop :=
+  match r with RS _ s => s_arr s < length m \/ s_len s = 0 | RM id => id < length m | RV _ => True end.
+
+(* the target of an in-place call existed before c1 ran: it is an argument the two calls can share *)
+Definition target_older_than (n0 : nat) (c : hcall) : Prop :=
+  match kind_of c with
+  | KInPlaceS s => s_arr s < n0
+  | KInPlaceM Wm => forall id, Wm id -> id < n0
+  | _ => True
+  end.
+
+Lemma c16_earlier_results_survive slack c1 c2 m0 rs1 m1 rs2 m2 r :
+  run_call slack c1 m0 = Some (rs1, m1) ->
+  run_call slack c2 m1 = Some (rs2, m2) ->
+  kind_of c1 = KFresh -> In r rs1 -> names_existing m1 r ->
+  target_older_than (length m0) c2 ->
+  read_ref m2 r = read_ref m1 r.
+Proof.
+  intros H1 H2 Hf Hin Hex Ht.
+  destruct (run_call_fresh_safe slack noP noW (length m0) c1 Hf m0 rs1 m1 (le_n _) H1) as [_ F].
+  rewrite Forall_forall in F. specialize (F r Hin).
+  assert (Hobj : forall id, length m0 <= id -> id < length m1 -> arr_of m2 id = arr_of m1 id).
+  { intros id Hge Hlt. unfold target_older_than in Ht.
+    destruct (kind_of c2) as [|s|Wm|s|Wm] eqn:Hk2.
+    - destruct (c16_frame slack c2 m1 rs2 m2 ltac:(unfold not_in_place; now rewrite Hk2) H2) as [Hfr _]. now apply frame_arr_of.
+    - apply (c16_in_place_other_arrays_untouched slack c2 s m1 rs2 m2 id Hk2 H2 Hlt). lia.
+    - destruct (c16_in_place_maps_only_those slack c2 Wm m1 rs2 m2 Hk2 H2) as (_ & H & _).
+      apply H; [exact Hlt|]. intros HW. specialize (Ht id HW). lia.
+    - destruct (c16_frame slack c2 m1 rs2 m2 ltac:(unfold not_in_place; now rewrite Hk2) H2) as [Hfr _]. now apply frame_arr_of.
+    - destruct (c16_frame slack c2 m1 rs2 m2 ltac:(unfold not_in_place; now rewrite Hk2) H2) as [Hfr _]. now apply frame_arr_of. }
+  apply read_ref_same_object. destruct r as [pre s|id|v]; cbn in *; [| |exact I].
+  - destruct Hex as [Hex|Hl]; [|now right]. destruct F as [Hfresh|[Hl _]]; [|now right]. left. now apply Hobj.
+  - now apply Hobj.
+Qed.
+
+Lemma c16_arguments_survive slack c m rs m' s :
+  not_in_place c ->
+  run_call slack c m = Some (rs, m') ->
+  s_arr s < length m ->
+  arr_of m' (s_arr s) = arr_of m (s_arr s) /\ read_all m' s = read_all m s.
+Proof.
+  intros Hnip Hrun Hs.
+  destruct (c16_frame_arrays_and_reads slack c m rs m' Hnip Hrun) as (Ha & Hr & _). auto.
 Qed.
